@@ -1,9 +1,78 @@
 (* C05 (unit invariance) for the WHOLE 3D solver (gen/Fteik3d.v: fteik3d = 8 source-cell corners from t_anad ;
-   nsweep * sweep3d ; gradient), over the reals (T := R, instance NumR).  PLACEHOLDER HEADER - rewritten at the end. *)
+   nsweep * sweep3d ; gradient), over the reals (T := R, instance NumR).  Both unit changes are treated at once (`skind`
+   of InitExact):
+
+     slowness unit   every slowness multiplied by c > 0:   fteik3d (smap c slow) dz dx dy zsrc xsrc ysrc nsweep grad
+     length unit     dz, dx, dy, zsrc, xsrc, ysrc multiplied by c > 0:
+                                                           fteik3d slow (c dz) (c dx) (c dy) (c zsrc) (c xsrc) (c ysrc) nsweep grad
+                     (the tuple sweep3d builds is then  dz2i, dx2i, dy2i / c^2, pairwise products / c^4, dsum / c^2:
+                      dargs3_length, dargs3_sc)
+
+   MAIN RESULTS
+     (1) node_rel           one node update, on the values it reads (`nv3` = the value Fteik3d.sweep writes: node_value_nv3,
+         sweep_node_scale   through NonNeg3d.sweep_dargs3_eq), resp. on the generated `sweep` itself (any node, any direction
+                            signs, any gradient bookkeeping): entries related by `vrel c` (scaled by c and below Big in both
+                            runs, or Big in both runs) stay so, under the caveat `node_cav3` on the REFERENCE values.
+     (2) run3_rel           any list of node updates (a pass, one sweep3d = `sweep_steps3`, several);
+         fteik3d_scale_slowness, fteik3d_scale_length
+                            if the reference problem returns Ok (tt, g, vz) then the scaled problem returns Ok (tt', g', vz')
+                            with vz' = c vz (slowness) resp. vz' = vz (length) and
+                            TRel3 nz nx ny c tt tt' /\ SameReach3 nz nx ny tt tt'  (nz = dim slow 0 + 1, ...), i.e. for every
+                            node (TRel3_SameReach3_spelled_out):  tt'[i,j,k] = c tt[i,j,k] with both sides < Big, or
+                            tt[i,j,k] = tt'[i,j,k] = Big.   Hypotheses on the data: c > 0, dz, dx, dy > 0, every slowness
+                            >= 0, extents >= 0.   The gradient output g' is NOT characterised (it depends on which candidate
+                            wins the min, i.e. on ties).
+     (3) fteik3d_scale_raises (+ _slowness_raises, _length_raises, fteik3d_scale_ok_iff): the scaled problem raises
+                            ValueError iff the reference problem does; no caveat, no hypothesis on the model.
+     (4) solver_rel3_below, fteik3d_scale_slowness_bounded, fteik3d_scale_length_bounded: the same conclusion from a
+                            caveat made of numbers only (any c > 0 resp. c >= 1), see (c) below.
+     non-vacuity            hx3_InitCav, hx3_SweepCav, fteik3d_scale_slowness_ex, fteik3d_scale_length_ex,
+                            fteik3d_scale_slowness_ex', node_rel_ex, fteik3d_scale_raises_ex: a heterogeneous model of
+                            2 x 2 x 2 cells, off-node source, two sweeps, c = 2.
+
+   THE CAVEAT.  The code uses the absolute constant Big = 1e5 as "not reached yet"; Big does not scale.  What is needed is
+   that Big really behaves as +infinity in the reference run and still does after multiplication by c:
+     Below c q :=  q < Big /\ c q < Big          Side c q :=  Below c q \/ (Big <= q /\ Big <= c q)
+   (a) initialisation (`InitCav`, on the REFERENCE run only; the initial state is Big everywhere except the 8 corners of the
+       source cell, and it scales exactly: (c zsrc)/(c dz) = zsrc/dz, same cell, t_ana scaled by c):
+         Below c (t_ana of each of the 8 corners).
+   (b) sweeping phase (`SweepCav3`, on the REFERENCE run only, any c > 0): before every node update performed by the
+       reference run (`Along` walks through `all_steps3`: nsweep times the updates of one sweep3d, in program order, each
+       in the grid reached at that point), `NodeCav3` = `node_cav3` of the values read holds.  With t0 the node, tv te tn
+       the axial neighbours, tev ten tnv the face-diagonal ones, tnve the cube-diagonal one, vz vx vy / vzx vzy vxy / vref
+       the edge / face / cell slownesses, p q r = 1/dz^2, 1/dx^2, 1/dy^2:
+         N1    t < Big -> Below c (t + d v_edge)                          for the three 1D candidates
+         N2    `plane_cav` for each of the three planes (a, b axial, d face-diagonal neighbour, v face slowness):
+                 a = Big -> b < Big -> d < Big -> Below c (b + db v)       [the test  a < b + db v  must fail in both runs]
+                 b = Big -> a < Big -> d < Big -> Below c (a + da v)
+                 a = Big -> b = Big -> d < Big -> 0 < v -> Below c (the plane candidate = the face-diagonal update
+                                                                      d + 2 v / sqrt (1/da^2 + 1/db^2))
+         N3    `mix_cav`, when tv, te, tn are reached and tev, ten, tnv are neither all reached nor all unreached: one squared
+               difference of t3 contains Big; the test t2 >= t3 must fail in both runs.  Three clauses (one per term), e.g.
+                 tnv = Big -> ten < Big -> Below c (ten + (te - tv) + 2 vref L_zx),   L_zx = sqrt (dsum / (p q))  (a length)
+         N4    t0 = tv = te = tn = tev = ten = tnv = Big -> tnve < Big -> Side c (tnve + 3 vref / sqrt dsum)
+               (the only case where the 8-point candidate is compared with Big itself: the cube-diagonal update).
+       Everything else needs nothing: comparisons between two times are invariant; with uniform patterns (the three axial
+       neighbours all reached or all Big, the same for the three face-diagonal ones) the Big's cancel exactly in t1 and t3
+       (weights sum to zero: op3_shift, op3_t3_shift), so the tests and the guard `t3d < tnve` agree and the value is
+       scaled, or >= Big in both runs (g3_uniform).  Zero slownesses are allowed.
+   (c) simple sufficient form (Along_of_bnd3, InitCav_of_bound; solver_rel3_below): h >= dz, dx, dy, every slowness in
+       [0, S], Lm >= the three lengths of N3 (`LmixBnd`; cubic cells: sqrt 3 h), N = length (all_steps3 ..) node updates:
+           Below c (2 (N + 1) (3 h S) + 2 S Lm)            (for c >= 1:  c (2 (N + 1) (3 h S) + 2 S Lm) < Big).
+       (the initial times are <= 3 h S: corner_time_bnd; every update adds at most 3 h S: nv3_bnd.)
+
+   STRUCTURE
+     1  values: brel / vrel (grid entries), crel / prel (candidates), orel (Big + y against Big + c y), min lemmas
+     2  operators: pl (plane candidate), g3 / t3c (8-point candidate), shifts, scalings, cand1d_rel, plane_rel, g3_uniform
+     3  node_cav3, nv3, t3c_rel, node_rel
+     4  GRel (grids, on the data: no index range needed), TRel3, SameReach3
+     5  sweep3d = run3 over sweep_steps3; Along; sweep_node_scale, do_step3_rel, run3_rel
+     6  the solver: source cell and vzero under both scalings, inside3d_sc, init_rel3, sweeps_rel3, solver_rel3
+     7  the theorems;  8  the numerical form of the caveat;  9  the initial grid;  10  numbers only;  11  examples *)
 From Coq Require Import ZArith List Bool Lia Reals Lra Psatz.
 From FT.lib Require Import Num Arr ArrLemmas.
 From FT.gen Require Import Fteik3d.
-From FT.proofs Require OperatorsR Sweep2dProofs Solve2dProofs Pos2d InitExact.
+From FT.proofs Require OperatorsR Operators3R Sweep2dProofs Solve2dProofs Pos2d InitExact.
 From FT.proofs Require Import NonNeg2d Sweep3dProofs Solve3dProofs SweepDargs NonNeg3d Pos3d.
 Import ListNotations.
 Open Scope R_scope.
@@ -24,6 +93,7 @@ Notation Rltb_scale := OperatorsR.Rltb_scale.
 Notation Rleb_scale := OperatorsR.Rleb_scale.
 Notation pymin2_scale := OperatorsR.pymin2_scale.
 Notation div_scale := OperatorsR.div_scale.
+Notation sqrt_scale' := OperatorsR.sqrt_scale'.
 
 (* ========================================================================================== *)
 (* 1. values: "reached" (below Big in both runs, and scaled) or "not reached" (the placeholder)  *)
@@ -83,6 +153,8 @@ Lemma crel_inf c x x' : BigR <= x -> BigR <= x' -> crel c x x'.
 Proof. intros; right; auto. Qed.
 Lemma prel_inf c x x' : BigR <= x -> BigR <= x' -> prel c x x'.
 Proof. intros; right; auto. Qed.
+Lemma prel_inf2 c x x' : BigR <= x /\ BigR <= x' -> prel c x x'.
+Proof. intros [? ?]; right; auto. Qed.
 Lemma crel_lt c x x' : crel c x x' -> x < BigR -> brel c x x'.
 Proof. intros [H|[G G']] L; [exact H | lra]. Qed.
 Lemma orel_ge c x x' : 0 < c -> orel c x x' -> BigR <= x /\ BigR <= x'.
@@ -394,7 +466,7 @@ Qed.
 Definition plane_cav (a b d v da db : R) : Prop :=
   (a = BigR -> b < BigR -> d < BigR -> Below c (b + db * v)) /\
   (b = BigR -> a < BigR -> d < BigR -> Below c (a + da * v)) /\
-  (a = BigR -> b = BigR -> d < BigR -> Below c (pl a b d v da db (1 / da / da) (1 / db / db))).
+  (a = BigR -> b = BigR -> d < BigR -> 0 < v -> Below c (pl a b d v da db (1 / da / da) (1 / db / db))).
 
 Lemma plane_rel a a' b b' d d' v da db :
   0 < da -> 0 < db -> 0 <= v ->
@@ -403,7 +475,7 @@ Lemma plane_rel a a' b b' d d' v da db :
   let P := pl a b d v da db (1 / da / da) (1 / db / db) in
   let P' := pl a' b' d' (sc_v k c v) (sc_h k c da) (sc_h k c db)
                (1 / sc_h k c da / sc_h k c da) (1 / sc_h k c db / sc_h k c db) in
-  prel c P P' /\ (a = BigR -> b = BigR -> (d < BigR -> brel c P P') /\ (d = BigR -> orel c P P')).
+  prel c P P' /\ (a = BigR -> b = BigR -> (d < BigR -> vrel c P P') /\ (d = BigR -> orel c P P')).
 Proof.
   intros Hda Hdb Hv Ra Rb Rd (N1 & N2 & N3) P P'.
   pose proof (sc_h_pos da Hda) as Hda'. pose proof (sc_h_pos db Hdb) as Hdb'.
@@ -461,14 +533,20 @@ Proof.
       subst a' b'. apply four_point_shift2. }
     destruct (vrel_cases _ _ _ Rd) as [(Ld & Ed & Ld')|[Ed Ed']].
     + (* the face-diagonal update *)
-      destruct (N3 Ea Eb Ld) as [B1 B2]. fold P in B1, B2.
-      destruct (Rltb a (b + db * v) && Rltb b (a + da * v)); [|exfalso; rewrite EP in B1; lra].
-      assert (E : P' = c * P) by (rewrite EP, EP'; subst d'; rewrite !sc_inv2; apply four_point_sc0).
-      split; [left; exact E|]. intros _ _. split; [|intros; exfalso; lra].
-      intros _. split; [exact E|]. split; [exact B1 | rewrite E; exact B2].
+      destruct (Rltb a (b + db * v) && Rltb b (a + da * v)) eqn:ET0.
+      * assert (Hvp : 0 < v).
+        { apply andb_true_iff in ET0 as [T1 _]. rb. subst a b. destruct (Rle_lt_or_eq_dec 0 v Hv) as [Y|Y]; [exact Y|].
+          exfalso. subst v. lra. }
+        destruct (N3 Ea Eb Ld Hvp) as [B1 B2]. fold P in B1, B2.
+        assert (E : P' = c * P) by (rewrite EP, EP'; subst d'; rewrite !sc_inv2; apply four_point_sc0).
+        split; [left; exact E|]. intros _ _. split; [|intros; exfalso; lra].
+        intros _. left. split; [exact E|]. split; [exact B1 | rewrite E; exact B2].
+      * rewrite EP, EP'. split; [apply prel_inf; apply Rle_refl|]. intros _ _. split; [|intros; exfalso; lra].
+        intros _. apply vrel_Big.
     + assert (HO : orel c P P').
       { rewrite EP, EP'. destruct (Rltb a (b + db * v) && Rltb b (a + da * v)); [|apply orel_Big]. subst d d'.
-        rewrite !four_point_shift3 by assumption. rewrite !sc_inv2, four_point_sc000.
+        rewrite (four_point_shift3 BigR v), (four_point_shift3 BigR (sc_v k c v)) by assumption.
+        rewrite !sc_inv2, four_point_sc000.
         exists (four_point 0 0 0 v (1 / da / da) (1 / db / db)). split; [apply four_point_000_nonneg; exact Hpp|]. auto. }
       destruct (orel_ge c P P' Hc HO). split; [apply prel_inf; assumption|].
       intros _ _. split; [intros; exfalso; lra | intros _; exact HO].
@@ -524,3 +602,1434 @@ Proof.
   rb. exists false, x. auto.
 Qed.
 End Ops.
+
+(* ========================================================================================== *)
+(* 3. one node update                                                                           *)
+(* ========================================================================================== *)
+(* the cube-diagonal update: what the 8-point operator computes when the six other neighbours are unreached *)
+Definition diag3 (z v p q r : R) : R := z + 3 * v / sqrt (p + q + r).
+
+Lemma g3_diag s u z v p q r : 0 < p -> 0 < q -> 0 < r -> 0 <= v -> g3 s s s u u u z v p q r = diag3 z v p q r.
+Proof.
+  intros Hp Hq Hr Hv. assert (Hs : 0 < p + q + r) by lra.
+  assert (E : g3 (s + 0) (s + 0) (s + 0) (u + 0) (u + 0) (u + 0) (0 + z) v p q r = diag3 z v p q r);
+    [|rewrite !Rplus_0_r, Rplus_0_l in E; exact E].
+  unfold g3. rewrite op3_t3_shift, op3_shift by exact Hs.
+  assert (E3 : op3_t3 0 0 0 0 0 0 z (p * q) (p * r) (q * r) = 0) by (rewrite op3_t3_terms; ring).
+  rewrite E3. unfold op3_t2. nr.
+  assert (H2 : 0 <= v * v * (p + q + r) * 9) by (assert (0 <= v * v) by nra; nra).
+  rewrite (proj2 (Rleb_true _ _) H2). rewrite op3_R, E3. unfold op3_t2. nr.
+  rewrite Rminus_0_r.
+  rewrite (sqrt_scale' (3 * v) (p + q + r)) by (try lra; ring).
+  unfold op3_a, op3_b, op3_c, hf, guard3, diag3. nr.
+  assert (Hsd : 0 < sqrt (p + q + r)) by (apply sqrt_lt_R0; exact Hs).
+  assert (Esd : sqrt (p + q + r) * sqrt (p + q + r) = p + q + r) by (apply sqrt_sqrt; lra).
+  set (sd := sqrt (p + q + r)) in *. clearbody sd. rewrite <- Esd.
+  assert (EX : 0 + ((0 - 1 / 2 * 0 + 1 / 2 * 0 - 1 / 2 * 0 + 1 / 2 * 0 - 0 + z) * p
+                    + (0 - 1 / 2 * 0 + 1 / 2 * 0 - 1 / 2 * 0 + 1 / 2 * 0 - 0 + z) * q
+                    + (0 - 1 / 2 * 0 + 1 / 2 * 0 - 1 / 2 * 0 + 1 / 2 * 0 - 0 + z) * r + 3 * v * sd) / (sd * sd)
+               = z + 3 * v / sd).
+  { replace ((0 - 1 / 2 * 0 + 1 / 2 * 0 - 1 / 2 * 0 + 1 / 2 * 0 - 0 + z) * p
+             + (0 - 1 / 2 * 0 + 1 / 2 * 0 - 1 / 2 * 0 + 1 / 2 * 0 - 0 + z) * q
+             + (0 - 1 / 2 * 0 + 1 / 2 * 0 - 1 / 2 * 0 + 1 / 2 * 0 - 0 + z) * r) with (z * (sd * sd)) by (rewrite Esd; ring).
+    field. lra. }
+  rewrite EX.
+  assert (Hq0 : 0 <= 3 * v / sd) by (apply Rmult_le_pos; [lra | left; apply Rinv_0_lt_compat; exact Hsd]).
+  rewrite (proj2 (Rltb_false _ _)) by lra. reflexivity.
+Qed.
+
+Lemma diag3_ge z v p q r : 0 < p + q + r -> 0 <= v -> z <= diag3 z v p q r.
+Proof.
+  intros Hs Hv. unfold diag3. assert (Hsd : 0 < sqrt (p + q + r)) by (apply sqrt_lt_R0; exact Hs).
+  assert (0 <= 3 * v / sqrt (p + q + r)) by (apply Rmult_le_pos; [lra | left; apply Rinv_0_lt_compat; exact Hsd]). lra.
+Qed.
+
+(* THE CAVEAT of the 8-point operator when the three axial neighbours are reached and the three face-diagonal ones are
+   neither all reached nor all unreached: one squared difference of t3 contains Big; the test t2 >= t3 must fail in
+   both runs.  L = sqrt (dsum / (product of the two inverse squared spacings of the term)) is a length. *)
+Definition mix_cav (c tv te tn tev ten tnv v p q r : R) : Prop :=
+  (tnv = BigR -> ten < BigR -> Below c (ten + (te - tv) + 2 * (v * Lmix (p * q) (p + q + r)))) /\
+  (ten = BigR -> tev < BigR -> Below c (tev + (tv - tn) + 2 * (v * Lmix (p * r) (p + q + r)))) /\
+  (tev = BigR -> tnv < BigR -> Below c (tnv + (tn - te) + 2 * (v * Lmix (q * r) (p + q + r)))).
+
+(* THE CAVEAT of one node update, on the values read in the REFERENCE run only.
+     t0 = tt[i,j,k]; tv, te, tn the axial neighbours; tev, ten, tnv the face-diagonal ones; tnve the cube-diagonal one;
+     vz, vx, vy edge slownesses (1D operators), vzx, vzy, vxy face slownesses (plane operators), vref cell slowness. *)
+Definition node_cav3 (c t0 tv te tn tev ten tnv tnve vz vx vy vzx vzy vxy vref dz dx dy : R) : Prop :=
+  let p := 1 / dz / dz in let q := 1 / dx / dx in let r := 1 / dy / dy in
+  (tv < BigR -> Below c (tv + dz * vz)) /\
+  (te < BigR -> Below c (te + dx * vx)) /\
+  (tn < BigR -> Below c (tn + dy * vy)) /\
+  plane_cav c tv te tev vzx dz dx /\
+  plane_cav c tv tn tnv vzy dz dy /\
+  plane_cav c te tn ten vxy dx dy /\
+  (tv < BigR -> te < BigR -> tn < BigR -> mix_cav c tv te tn tev ten tnv vref p q r) /\
+  (t0 = BigR -> tv = BigR -> te = BigR -> tn = BigR -> tev = BigR -> ten = BigR -> tnv = BigR -> tnve < BigR ->
+   Side c (diag3 tnve vref p q r)).
+
+(* the value written by `sweep` at a node, as a function of the values it reads *)
+Definition nv3 (t0 tv te tn tev ten tnv tnve vz vx vy vzx vzy vxy vref dz dx dy : R) : R :=
+  let p := 1 / dz / dz in let q := 1 / dx / dx in let r := 1 / dy / dy in
+  let t1 := pymin3 (tv + dz * vz) (te + dx * vx) (tn + dy * vy) in
+  let t2 := pymin3 (pl tv te tev vzx dz dx p q) (pl tv tn tnv vzy dz dy p r) (pl te tn ten vxy dx dy q r) in
+  pymin4 t0 t1 t2 (t3c tv te tn tev ten tnv tnve vref p q r (pymin2 t1 t2)).
+
+Lemma pymax3_same (x : R) : pymax3 x x x = x.
+Proof. unfold pymax3. rewrite !pymax2_R. repeat destruct (Rltb _ _); reflexivity. Qed.
+
+Section Node.
+Variables (c : R) (k : skind).
+Hypothesis Hc : 0 < c.
+
+Lemma Lmix_sc p q dsum :
+  0 < p -> 0 < q -> Lmix (sc_i2 k c p * sc_i2 k c q) (sc_i2 k c dsum) = sc_h k c (Lmix (p * q) dsum).
+Proof.
+  intros Hp Hq. unfold Lmix. destruct k; cbn [InitExact.sc_i2 InitExact.sc_h]; [reflexivity|].
+  apply sqrt_scale'; [lra|]. field. lra.
+Qed.
+
+Lemma diag3_sc z v p q r :
+  0 < p + q + r -> diag3 (c * z) (sc_v k c v) (sc_i2 k c p) (sc_i2 k c q) (sc_i2 k c r) = c * diag3 z v p q r.
+Proof.
+  intros Hs. unfold diag3. rewrite sc_i2_sum by exact Hc.
+  assert (Hsd : 0 < sqrt (p + q + r)) by (apply sqrt_lt_R0; exact Hs).
+  destruct k; cbn [InitExact.sc_i2 InitExact.sc_v]; [unfold Rdiv; ring|].
+  assert (Hi : 0 < / c) by (apply Rinv_0_lt_compat; exact Hc).
+  rewrite (sqrt_scale' (/ c) (p + q + r)) by (try lra; field; lra). field. lra.
+Qed.
+
+Lemma g3_uniform' s s' u u' w w' yv ye yn yev yen ynv z tv tv' te te' tn tn' tev tev' ten ten' tnv tnv' tnve tnve' v p q r :
+  0 < p -> 0 < q -> 0 < r ->
+  tv = s + yv -> te = s + ye -> tn = s + yn -> tev = u + yev -> ten = u + yen -> tnv = u + ynv -> tnve = w + z ->
+  tv' = s' + c * yv -> te' = s' + c * ye -> tn' = s' + c * yn ->
+  tev' = u' + c * yev -> ten' = u' + c * yen -> tnv' = u' + c * ynv -> tnve' = w' + c * z ->
+  exists (b : bool) (x : R),
+    g3 tv te tn tev ten tnv tnve v p q r = (if b then BigR else w + x) /\
+    g3 tv' te' tn' tev' ten' tnv' tnve' (sc_v k c v) (sc_i2 k c p) (sc_i2 k c q) (sc_i2 k c r) = (if b then BigR else w' + c * x) /\
+    (b = false -> z <= x).
+Proof. intros Hp Hq Hr. intros. subst. apply (g3_uniform c k Hc); assumption. Qed.
+
+(* mixed patterns: the test t2 >= t3 fails in both runs *)
+Lemma g3_mix_c2 tv te tn tev tev' ten tnve tnve' v p q r :
+  0 < p -> 0 < q -> 0 < r -> 0 <= v ->
+  Below c (ten + (te - tv) + 2 * (v * Lmix (p * q) (p + q + r))) ->
+  g3 tv te tn tev ten BigR tnve v p q r = BigR /\
+  g3 (c * tv) (c * te) (c * tn) tev' (c * ten) BigR tnve' (sc_v k c v) (sc_i2 k c p) (sc_i2 k c q) (sc_i2 k c r) = BigR.
+Proof.
+  intros Hp Hq Hr Hv [B1 B2]. pose proof (sc_i2_pos c k Hc p Hp). pose proof (sc_i2_pos c k Hc q Hq).
+  pose proof (sc_i2_pos c k Hc r Hr). split.
+  - apply (g3_mix_zx _ _ _ _ _ _ _ _ _ _ _ (Lmix (p * q) (p + q + r))); try assumption;
+      [apply Lmix_nonneg | apply Lmix_sq; nra | right; lra].
+  - apply (g3_mix_zx _ _ _ _ _ _ _ _ _ _ _ (Lmix (sc_i2 k c p * sc_i2 k c q) (sc_i2 k c p + sc_i2 k c q + sc_i2 k c r)));
+      try assumption; [apply sc_v_nonneg; assumption | apply Lmix_nonneg | apply Lmix_sq; nra |].
+    rewrite sc_i2_sum, Lmix_sc, sc_vh by assumption. right. lra.
+Qed.
+Lemma g3_mix_c4 tv te tn tev tnv tnv' tnve tnve' v p q r :
+  0 < p -> 0 < q -> 0 < r -> 0 <= v ->
+  Below c (tev + (tv - tn) + 2 * (v * Lmix (p * r) (p + q + r))) ->
+  g3 tv te tn tev BigR tnv tnve v p q r = BigR /\
+  g3 (c * tv) (c * te) (c * tn) (c * tev) BigR tnv' tnve' (sc_v k c v) (sc_i2 k c p) (sc_i2 k c q) (sc_i2 k c r) = BigR.
+Proof.
+  intros Hp Hq Hr Hv [B1 B2]. pose proof (sc_i2_pos c k Hc p Hp). pose proof (sc_i2_pos c k Hc q Hq).
+  pose proof (sc_i2_pos c k Hc r Hr). split.
+  - apply (g3_mix_zy _ _ _ _ _ _ _ _ _ _ _ (Lmix (p * r) (p + q + r))); try assumption;
+      [apply Lmix_nonneg | apply Lmix_sq; nra | right; lra].
+  - apply (g3_mix_zy _ _ _ _ _ _ _ _ _ _ _ (Lmix (sc_i2 k c p * sc_i2 k c r) (sc_i2 k c p + sc_i2 k c q + sc_i2 k c r)));
+      try assumption; [apply sc_v_nonneg; assumption | apply Lmix_nonneg | apply Lmix_sq; nra |].
+    rewrite sc_i2_sum, Lmix_sc, sc_vh by assumption. right. lra.
+Qed.
+Lemma g3_mix_c5 tv te tn ten ten' tnv tnve tnve' v p q r :
+  0 < p -> 0 < q -> 0 < r -> 0 <= v ->
+  Below c (tnv + (tn - te) + 2 * (v * Lmix (q * r) (p + q + r))) ->
+  g3 tv te tn BigR ten tnv tnve v p q r = BigR /\
+  g3 (c * tv) (c * te) (c * tn) BigR ten' (c * tnv) tnve' (sc_v k c v) (sc_i2 k c p) (sc_i2 k c q) (sc_i2 k c r) = BigR.
+Proof.
+  intros Hp Hq Hr Hv [B1 B2]. pose proof (sc_i2_pos c k Hc p Hp). pose proof (sc_i2_pos c k Hc q Hq).
+  pose proof (sc_i2_pos c k Hc r Hr). split.
+  - apply (g3_mix_xy _ _ _ _ _ _ _ _ _ _ _ (Lmix (q * r) (p + q + r))); try assumption;
+      [apply Lmix_nonneg | apply Lmix_sq; nra | left; lra].
+  - apply (g3_mix_xy _ _ _ _ _ _ _ _ _ _ _ (Lmix (sc_i2 k c q * sc_i2 k c r) (sc_i2 k c p + sc_i2 k c q + sc_i2 k c r)));
+      try assumption; [apply sc_v_nonneg; assumption | apply Lmix_nonneg | apply Lmix_sq; nra |].
+    rewrite sc_i2_sum, Lmix_sc, sc_vh by assumption. left. lra.
+Qed.
+End Node.
+
+Section NodeRel.
+Variables (c : R) (k : skind).
+Hypothesis Hc : 0 < c.
+
+Lemma uni_trel G G' (z : R) :
+  (exists (b : bool) (x : R), G = (if b then BigR else 0 + x) /\ G' = (if b then BigR else 0 + c * x) /\ (b = false -> z <= x)) ->
+  trel c G G'.
+Proof. intros ([|] & x & -> & -> & _); [right; auto | left; ring]. Qed.
+Lemma uni_inf G G' :
+  (exists (b : bool) (x : R), G = (if b then BigR else BigR + x) /\ G' = (if b then BigR else BigR + c * x) /\ (b = false -> 0 <= x)) ->
+  BigR <= G /\ BigR <= G'.
+Proof. intros ([|] & x & -> & -> & Hx); [split; apply Rle_refl|]. specialize (Hx eq_refl). split; [lra | nra]. Qed.
+
+(* the 8-point candidate *)
+Lemma t3c_rel t0 tv tv' te te' tn tn' tev tev' ten ten' tnv tnv' tnve tnve' v dz dx dy m12 m12' :
+  0 < dz -> 0 < dx -> 0 < dy -> 0 <= v ->
+  vrel c tv tv' -> vrel c te te' -> vrel c tn tn' -> vrel c tev tev' -> vrel c ten ten' -> vrel c tnv tnv' ->
+  vrel c tnve tnve' ->
+  (tv < BigR -> te < BigR -> tn < BigR -> mix_cav c tv te tn tev ten tnv v (1 / dz / dz) (1 / dx / dx) (1 / dy / dy)) ->
+  (t0 = BigR -> tv = BigR -> te = BigR -> tn = BigR -> tev = BigR -> ten = BigR -> tnv = BigR -> tnve < BigR ->
+   Side c (diag3 tnve v (1 / dz / dz) (1 / dx / dx) (1 / dy / dy))) ->
+  (tv < BigR -> te < BigR -> tn < BigR -> m12' = c * m12) ->
+  (tv < BigR \/ te < BigR \/ tn < BigR \/ tev < BigR \/ ten < BigR \/ tnv < BigR -> m12 <= BigR /\ m12' <= BigR) ->
+  (tv = BigR -> te = BigR -> tn = BigR -> tev = BigR -> ten = BigR -> tnv = BigR -> orel c m12 m12') ->
+  let T := t3c tv te tn tev ten tnv tnve v (1 / dz / dz) (1 / dx / dx) (1 / dy / dy) m12 in
+  let T' := t3c tv' te' tn' tev' ten' tnv' tnve' (sc_v k c v)
+              (1 / sc_h k c dz / sc_h k c dz) (1 / sc_h k c dx / sc_h k c dx) (1 / sc_h k c dy / sc_h k c dy) m12' in
+  prel c T T' /\ (t0 = BigR -> tv = BigR -> te = BigR -> tn = BigR -> crel c T T').
+Proof.
+  intros Hdz Hdx Hdy Hv Rv Re Rn Rev Ren Rnv Rnve NM ND H1 H2 H3 T T'.
+  pose proof (inv2_pos dz Hdz) as Hp. pose proof (inv2_pos dx Hdx) as Hq. pose proof (inv2_pos dy Hdy) as Hr.
+  set (p := 1 / dz / dz) in *. set (q := 1 / dx / dx) in *. set (r := 1 / dy / dy) in *.
+  assert (Hs : 0 < p + q + r) by lra.
+  subst T'. rewrite !sc_inv2. fold p q r.
+  set (T' := t3c tv' te' tn' tev' ten' tnv' tnve' (sc_v k c v) (sc_i2 k c p) (sc_i2 k c q) (sc_i2 k c r) m12').
+  pose proof BigR_pos as HB.
+  (* some axial neighbour unreached and some of the six reached: the test fails on both sides *)
+  assert (FA : (tv = BigR \/ te = BigR \/ tn = BigR) ->
+               (tv < BigR \/ te < BigR \/ tn < BigR \/ tev < BigR \/ ten < BigR \/ tnv < BigR) ->
+               T = BigR /\ T' = BigR).
+  { intros Hb Hr6. destruct (H2 Hr6) as [M M'].
+    destruct (pymax3_ge tv te tn) as (G1 & G2 & G3). destruct (pymax3_ge tv' te' tn') as (G1' & G2' & G3').
+    assert (GM : BigR <= pymax3 tv te tn) by (destruct Hb as [E|[E|E]]; lra).
+    assert (GM' : BigR <= pymax3 tv' te' tn').
+    { destruct Hb as [E|[E|E]];
+        [pose proof (vrel_eq _ _ _ Rv E) | pose proof (vrel_eq _ _ _ Re E) | pose proof (vrel_eq _ _ _ Rn E)]; lra. }
+    subst T T'. unfold t3c. rewrite !(proj2 (Rltb_false _ _)) by lra. auto. }
+  assert (FA' : (tv = BigR \/ te = BigR \/ tn = BigR) ->
+                (tv < BigR \/ te < BigR \/ tn < BigR \/ tev < BigR \/ ten < BigR \/ tnv < BigR) ->
+                prel c T T' /\ (t0 = BigR -> tv = BigR -> te = BigR -> tn = BigR -> crel c T T')).
+  { intros Hb Hr6. destruct (FA Hb Hr6) as [-> ->]. split; [apply prel_inf | intros; apply crel_inf]; apply Rle_refl. }
+  destruct (vrel_cases _ _ _ Rv) as [(Lv & Ev & Lv')|[Ev Ev']];
+  destruct (vrel_cases _ _ _ Re) as [(Le & Ee & Le')|[Ee Ee']];
+  destruct (vrel_cases _ _ _ Rn) as [(Ln & En & Ln')|[En En']];
+  try (apply FA'; tauto).
+  - (* the three axial neighbours reached *)
+    split; [|intros _ E; exfalso; lra].
+    specialize (NM Lv Le Ln). destruct NM as (C2 & C4 & C5). specialize (H1 Lv Le Ln).
+    subst T T'. unfold t3c. subst tv' te' tn' m12'. rewrite (pymax3_sc c Hc), Rltb_scale by exact Hc.
+    destruct (Rltb (pymax3 tv te tn) m12); [|apply prel_inf; apply Rle_refl].
+    destruct (vrel_cases _ _ _ Rev) as [(Lev & Eev & Lev')|[Eev Eev']];
+    destruct (vrel_cases _ _ _ Ren) as [(Len & Een & Len')|[Een Een']];
+    destruct (vrel_cases _ _ _ Rnv) as [(Lnv & Env & Lnv')|[Env Env']].
+    + (* face-diagonal neighbours all reached *)
+      destruct (vrel_cases _ _ _ Rnve) as [(Lnve & Enve & Lnve')|[Enve Enve']].
+      * apply trel_prel, (uni_trel _ _ tnve).
+        apply (g3_uniform' c k Hc 0 0 0 0 0 0 tv te tn tev ten tnv tnve); try assumption; subst; ring.
+      * apply prel_inf2, uni_inf.
+        apply (g3_uniform' c k Hc 0 0 0 0 BigR BigR tv te tn tev ten tnv 0); try assumption; subst; ring.
+    + subst ten' tnv tnv'. destruct (g3_mix_c2 c k Hc tv te tn tev tev' ten tnve tnve' v p q r Hp Hq Hr Hv (C2 eq_refl Len)) as [-> ->].
+      apply prel_inf; apply Rle_refl.
+    + subst tev' ten ten'. destruct (g3_mix_c4 c k Hc tv te tn tev tnv tnv' tnve tnve' v p q r Hp Hq Hr Hv (C4 eq_refl Lev)) as [-> ->].
+      apply prel_inf; apply Rle_refl.
+    + subst tev' ten ten'. destruct (g3_mix_c4 c k Hc tv te tn tev tnv tnv' tnve tnve' v p q r Hp Hq Hr Hv (C4 eq_refl Lev)) as [-> ->].
+      apply prel_inf; apply Rle_refl.
+    + subst tnv' tev tev'. destruct (g3_mix_c5 c k Hc tv te tn ten ten' tnv tnve tnve' v p q r Hp Hq Hr Hv (C5 eq_refl Lnv)) as [-> ->].
+      apply prel_inf; apply Rle_refl.
+    + subst ten' tnv tnv'. destruct (g3_mix_c2 c k Hc tv te tn tev tev' ten tnve tnve' v p q r Hp Hq Hr Hv (C2 eq_refl Len)) as [-> ->].
+      apply prel_inf; apply Rle_refl.
+    + subst tnv' tev tev'. destruct (g3_mix_c5 c k Hc tv te tn ten ten' tnv tnve tnve' v p q r Hp Hq Hr Hv (C5 eq_refl Lnv)) as [-> ->].
+      apply prel_inf; apply Rle_refl.
+    + (* face-diagonal neighbours all unreached *)
+      destruct (vrel_cases _ _ _ Rnve) as [(Lnve & Enve & Lnve')|[Enve Enve']].
+      * apply trel_prel, (uni_trel _ _ tnve).
+        apply (g3_uniform' c k Hc 0 0 BigR BigR 0 0 tv te tn 0 0 0 tnve); try assumption; subst; ring.
+      * apply prel_inf2, uni_inf.
+        apply (g3_uniform' c k Hc 0 0 BigR BigR BigR BigR tv te tn 0 0 0 0); try assumption; subst; ring.
+  - (* the three axial neighbours unreached *)
+    destruct (vrel_cases _ _ _ Rev) as [(Lev & Eev & Lev')|[Eev Eev']];
+    destruct (vrel_cases _ _ _ Ren) as [(Len & Een & Len')|[Een Een']];
+    destruct (vrel_cases _ _ _ Rnv) as [(Lnv & Env & Lnv')|[Env Env']];
+    try (apply FA'; tauto).
+    (* all six unreached: the cube-diagonal update *)
+    specialize (H3 Ev Ee En Eev Een Env).
+    assert (ET : T = if Rltb BigR m12 then diag3 tnve v p q r else BigR).
+    { subst T. unfold t3c. subst tv te tn tev ten tnv. rewrite pymax3_same, g3_diag by assumption. reflexivity. }
+    assert (ET' : T' = if Rltb BigR m12 then diag3 tnve' (sc_v k c v) (sc_i2 k c p) (sc_i2 k c q) (sc_i2 k c r) else BigR).
+    { subst T'. unfold t3c. subst tv' te' tn' tev' ten' tnv'. rewrite pymax3_same, (orel_test c Hc _ _ H3).
+      rewrite g3_diag; [reflexivity | apply sc_i2_pos; assumption .. | apply sc_v_nonneg; assumption]. }
+    rewrite ET, ET'. destruct (Rltb BigR m12); [|split; [apply prel_inf | intros; apply crel_inf]; apply Rle_refl].
+    destruct (vrel_cases _ _ _ Rnve) as [(Lnve & Enve & Lnve')|[Enve Enve']].
+    + subst tnve'. rewrite (diag3_sc c k Hc) by exact Hs. split; [left; reflexivity|].
+      intros E0 _ _ _. apply crel_of_side. apply ND; assumption.
+    + assert (G : BigR <= diag3 tnve v p q r) by (rewrite <- Enve at 1; apply diag3_ge; assumption).
+      assert (G' : BigR <= diag3 tnve' (sc_v k c v) (sc_i2 k c p) (sc_i2 k c q) (sc_i2 k c r)).
+      { rewrite <- Enve' at 1. apply diag3_ge; [|apply sc_v_nonneg; assumption].
+        pose proof (sc_i2_pos c k Hc p Hp). pose proof (sc_i2_pos c k Hc q Hq). pose proof (sc_i2_pos c k Hc r Hr). lra. }
+      split; [apply prel_inf | intros; apply crel_inf]; assumption.
+Qed.
+End NodeRel.
+
+Lemma pymin3_le (a b d : R) : pymin3 a b d <= a /\ pymin3 a b d <= b /\ pymin3 a b d <= d.
+Proof.
+  unfold pymin3. pose proof (pymin2_le_l (pymin2 a b) d). pose proof (pymin2_le_r (pymin2 a b) d).
+  pose proof (pymin2_le_l a b). pose proof (pymin2_le_r a b). lra.
+Qed.
+
+Section NodeThm.
+Variables (c : R) (k : skind).
+Hypothesis Hc : 0 < c.
+
+(* (1) NODE LEVEL: one 3D node update under a change of the slowness unit or of the length unit writes the scaled
+   value, or the placeholder in both runs *)
+Theorem node_rel t0 t0' tv tv' te te' tn tn' tev tev' ten ten' tnv tnv' tnve tnve' vz vx vy vzx vzy vxy vref dz dx dy :
+  0 < dz -> 0 < dx -> 0 < dy ->
+  0 <= vz -> 0 <= vx -> 0 <= vy -> 0 <= vzx -> 0 <= vzy -> 0 <= vxy -> 0 <= vref ->
+  vrel c t0 t0' -> vrel c tv tv' -> vrel c te te' -> vrel c tn tn' ->
+  vrel c tev tev' -> vrel c ten ten' -> vrel c tnv tnv' -> vrel c tnve tnve' ->
+  node_cav3 c t0 tv te tn tev ten tnv tnve vz vx vy vzx vzy vxy vref dz dx dy ->
+  vrel c (nv3 t0 tv te tn tev ten tnv tnve vz vx vy vzx vzy vxy vref dz dx dy)
+         (nv3 t0' tv' te' tn' tev' ten' tnv' tnve' (sc_v k c vz) (sc_v k c vx) (sc_v k c vy)
+              (sc_v k c vzx) (sc_v k c vzy) (sc_v k c vxy) (sc_v k c vref) (sc_h k c dz) (sc_h k c dx) (sc_h k c dy)).
+Proof.
+  intros Hdz Hdx Hdy Hvz Hvx Hvy Hvzx Hvzy Hvxy Hvr R0 Rv Re Rn Rev Ren Rnv Rnve (N1 & N2 & N3 & Pzx & Pzy & Pxy & NM & ND).
+  unfold nv3. cbv zeta.
+  destruct (cand1d_rel c k Hc tv tv' dz vz Hdz Hvz Rv N1) as (C1 & C1b & C1o).
+  destruct (cand1d_rel c k Hc te te' dx vx Hdx Hvx Re N2) as (C2 & C2b & C2o).
+  destruct (cand1d_rel c k Hc tn tn' dy vy Hdy Hvy Rn N3) as (C3 & C3b & C3o).
+  destruct (plane_rel c k Hc tv tv' te te' tev tev' vzx dz dx Hdz Hdx Hvzx Rv Re Rev Pzx) as (L1 & L1b).
+  destruct (plane_rel c k Hc tv tv' tn tn' tnv tnv' vzy dz dy Hdz Hdy Hvzy Rv Rn Rnv Pzy) as (L2 & L2b).
+  destruct (plane_rel c k Hc te te' tn tn' ten ten' vxy dx dy Hdx Hdy Hvxy Re Rn Ren Pxy) as (L3 & L3b).
+  set (a1 := tv + dz * vz) in *. set (a2 := te + dx * vx) in *. set (a3 := tn + dy * vy) in *.
+  set (a1' := tv' + sc_h k c dz * sc_v k c vz) in *. set (a2' := te' + sc_h k c dx * sc_v k c vx) in *.
+  set (a3' := tn' + sc_h k c dy * sc_v k c vy) in *.
+  set (p1 := pl tv te tev vzx dz dx (1 / dz / dz) (1 / dx / dx)) in *.
+  set (p2 := pl tv tn tnv vzy dz dy (1 / dz / dz) (1 / dy / dy)) in *.
+  set (p3 := pl te tn ten vxy dx dy (1 / dx / dx) (1 / dy / dy)) in *.
+  set (p1' := pl tv' te' tev' (sc_v k c vzx) (sc_h k c dz) (sc_h k c dx) (1 / sc_h k c dz / sc_h k c dz) (1 / sc_h k c dx / sc_h k c dx)) in *.
+  set (p2' := pl tv' tn' tnv' (sc_v k c vzy) (sc_h k c dz) (sc_h k c dy) (1 / sc_h k c dz / sc_h k c dz) (1 / sc_h k c dy / sc_h k c dy)) in *.
+  set (p3' := pl te' tn' ten' (sc_v k c vxy) (sc_h k c dx) (sc_h k c dy) (1 / sc_h k c dx / sc_h k c dx) (1 / sc_h k c dy / sc_h k c dy)) in *.
+  set (t1 := pymin3 a1 a2 a3). set (t1' := pymin3 a1' a2' a3').
+  set (t2 := pymin3 p1 p2 p3). set (t2' := pymin3 p1' p2' p3').
+  destruct (pymin3_le a1 a2 a3) as (U1 & U2 & U3). destruct (pymin3_le a1' a2' a3') as (U1' & U2' & U3').
+  destruct (pymin3_le p1 p2 p3) as (V1 & V2 & V3). destruct (pymin3_le p1' p2' p3') as (V1' & V2' & V3').
+  fold t1 in U1, U2, U3. fold t1' in U1', U2', U3'. fold t2 in V1, V2, V3. fold t2' in V1', V2', V3'.
+  pose proof (pymin2_le_l t1 t2) as W1. pose proof (pymin2_le_r t1 t2) as W2.
+  pose proof (pymin2_le_l t1' t2') as W1'. pose proof (pymin2_le_r t1' t2') as W2'.
+  assert (R1 : crel c t1 t1') by (apply pymin3_crel; assumption).
+  (* a reached axial neighbour makes t1d reached *)
+  assert (B1 : tv < BigR \/ te < BigR \/ tn < BigR -> brel c t1 t1').
+  { intros H. apply (crel_lt _ _ _ R1).
+    destruct H as [L|[L|L]]; [destruct (C1b L) as (_ & ? & _) | destruct (C2b L) as (_ & ? & _) | destruct (C3b L) as (_ & ? & _)]; lra. }
+  assert (Rm1 : vrel c (pymin2 t0 t1) (pymin2 t0' t1')) by (apply pymin2_vc; assumption).
+  assert (Hm : pymin2 t0 t1 = BigR -> t0 = BigR /\ tv = BigR /\ te = BigR /\ tn = BigR).
+  { intros Em. pose proof (pymin2_le_l t0 t1) as M0. pose proof (pymin2_le_r t0 t1) as M1.
+    assert (Ht1 : BigR <= t1) by lra.
+    repeat split.
+    - destruct (vrel_cases _ _ _ R0) as [(L & _)|[E _]]; [lra | exact E].
+    - destruct (vrel_cases _ _ _ Rv) as [(L & _)|[E _]]; [|exact E]. destruct (B1 (or_introl L)) as (_ & ? & _). lra.
+    - destruct (vrel_cases _ _ _ Re) as [(L & _)|[E _]]; [|exact E]. destruct (B1 (or_intror (or_introl L))) as (_ & ? & _). lra.
+    - destruct (vrel_cases _ _ _ Rn) as [(L & _)|[E _]]; [|exact E]. destruct (B1 (or_intror (or_intror L))) as (_ & ? & _). lra. }
+  (* the 8-point candidate *)
+  assert (H1 : tv < BigR -> te < BigR -> tn < BigR -> pymin2 t1' t2' = c * pymin2 t1 t2).
+  { intros Lv _ _. exact (proj1 (pymin2_b3 c Hc _ _ _ _ _ _ _ _ (B1 (or_introl Lv)) L1 L2 L3)). }
+  assert (H2 : tv < BigR \/ te < BigR \/ tn < BigR \/ tev < BigR \/ ten < BigR \/ tnv < BigR ->
+               pymin2 t1 t2 <= BigR /\ pymin2 t1' t2' <= BigR).
+  { assert (HA : tv < BigR \/ te < BigR \/ tn < BigR -> pymin2 t1 t2 <= BigR /\ pymin2 t1' t2' <= BigR).
+    { intros H. destruct (B1 H) as (_ & ? & ?). lra. }
+    assert (HD : forall a a' b b' d P P', vrel c a a' -> vrel c b b' ->
+               (a = BigR -> b = BigR -> (d < BigR -> vrel c P P') /\ (d = BigR -> orel c P P')) ->
+               (a < BigR -> tv < BigR \/ te < BigR \/ tn < BigR) -> (b < BigR -> tv < BigR \/ te < BigR \/ tn < BigR) ->
+               t2 <= P -> t2' <= P' -> d < BigR -> pymin2 t1 t2 <= BigR /\ pymin2 t1' t2' <= BigR).
+    { intros a a' b b' d P P' Ra Rb HP Ia Ib LP LP' Ld.
+      destruct (vrel_cases _ _ _ Ra) as [(La & _)|[Ea _]]; [apply HA, Ia, La|].
+      destruct (vrel_cases _ _ _ Rb) as [(Lb & _)|[Eb _]]; [apply HA, Ib, Lb|].
+      destruct (vrel_le _ _ _ (proj1 (HP Ea Eb) Ld)). lra. }
+    intros [L|[L|[L|[L|[L|L]]]]]; [apply HA; tauto | apply HA; tauto | apply HA; tauto | | |].
+    - apply (HD tv tv' te te' tev p1 p1'); auto; tauto.
+    - apply (HD te te' tn tn' ten p3 p3'); auto; tauto.
+    - apply (HD tv tv' tn tn' tnv p2 p2'); auto; tauto. }
+  assert (H3 : tv = BigR -> te = BigR -> tn = BigR -> tev = BigR -> ten = BigR -> tnv = BigR ->
+               orel c (pymin2 t1 t2) (pymin2 t1' t2')).
+  { intros Ev Ee En Eev Een Env. apply pymin2_orel; [exact Hc | |]; apply pymin3_orel; auto.
+    - exact (proj2 (L1b Ev Ee) Eev).
+    - exact (proj2 (L2b Ev En) Env).
+    - exact (proj2 (L3b Ee En) Een). }
+  destruct (t3c_rel c k Hc t0 tv tv' te te' tn tn' tev tev' ten ten' tnv tnv' tnve tnve' vref dz dx dy
+              (pymin2 t1 t2) (pymin2 t1' t2') Hdz Hdx Hdy Hvr Rv Re Rn Rev Ren Rnv Rnve NM ND H1 H2 H3) as (T3p & T3c).
+  set (T := t3c tv te tn tev ten tnv tnve vref (1 / dz / dz) (1 / dx / dx) (1 / dy / dy) (pymin2 t1 t2)) in *.
+  set (T' := t3c tv' te' tn' tev' ten' tnv' tnve' (sc_v k c vref) (1 / sc_h k c dz / sc_h k c dz) (1 / sc_h k c dx / sc_h k c dx)
+                 (1 / sc_h k c dy / sc_h k c dy) (pymin2 t1' t2')) in *.
+  (* min (t0, t1d, t2d) *)
+  assert (Rm2 : vrel c (pymin2 (pymin2 t0 t1) t2) (pymin2 (pymin2 t0' t1') t2')).
+  { destruct (vrel_cases _ _ _ Rm1) as [(Lm & Em & Lm')|[Em Em']].
+    - left. apply pymin2_b3; try assumption. repeat split; assumption.
+    - destruct (Hm Em) as (E0 & Ev & Ee & En). rewrite Em, Em'. apply pymin2_vc; [exact Hc | apply vrel_Big|].
+      assert (HP : forall d d' P P', vrel c d d' -> (d < BigR -> vrel c P P') /\ (d = BigR -> orel c P P') -> crel c P P').
+      { intros d d' P P' Rd [HPv HPo]. destruct (vrel_cases _ _ _ Rd) as [(Ld & _)|[Ed _]].
+        - destruct (HPv Ld) as [Hb|[E E']]; [left; exact Hb | right; lra].
+        - apply orel_crel; auto. }
+      apply pymin3_crel; [exact Hc | apply (HP tev tev') | apply (HP tnv tnv') | apply (HP ten ten')]; auto. }
+  unfold pymin4, pymin3.
+  apply pymin2_vp; [exact Hc | exact Rm2 | intros _; exact T3p|].
+  intros Em2. pose proof (pymin2_le_l (pymin2 t0 t1) t2) as M1. destruct (vrel_le _ _ _ Rm1) as [M2 _].
+  destruct (Hm ltac:(lra)) as (E0 & Ev & Ee & En). apply T3c; assumption.
+Qed.
+End NodeThm.
+
+(* ========================================================================================== *)
+(* 4. grids                                                                                     *)
+(* ========================================================================================== *)
+(* entry by entry; stated on the data so that no index range is ever needed (reads out of range return an entry or
+   the default 0, which is related to itself) *)
+Definition GRel (c : R) (a a' : arr R) : Prop := shape a = shape a' /\ Forall2 (vrel c) (dat a) (dat a').
+
+Lemma Forall2_nth_rel {A} (P : A -> A -> Prop) l l' d d' n : Forall2 P l l' -> P d d' -> P (nth n l d) (nth n l' d').
+Proof. intros F Hd. revert n. induction F as [|x y l l' Hxy _ IH]; intros [|n]; cbn; auto. Qed.
+Lemma Forall2_upd {A} (P : A -> A -> Prop) l l' n v v' : Forall2 P l l' -> P v v' -> Forall2 P (upd l n v) (upd l' n v').
+Proof. intros F Hv. revert n. induction F as [|x y l l' Hxy F IH]; intros [|n]; cbn [upd]; constructor; auto. Qed.
+
+Lemma GRel_get c a a' idx : GRel c a a' -> vrel c (get 0 a idx) (get 0 a' idx).
+Proof. intros [Es F]. unfold get. rewrite <- Es. apply Forall2_nth_rel; [exact F | apply vrel_zero]. Qed.
+Lemma GRel_set c a a' idx v v' : GRel c a a' -> vrel c v v' -> GRel c (set a idx v) (set a' idx v').
+Proof. intros [Es F] Hv. split; [exact Es|]. unfold set. cbn [dat shape]. rewrite <- Es. apply Forall2_upd; assumption. Qed.
+Lemma GRel_full c sh : GRel c (full sh BigR) (full sh BigR).
+Proof.
+  split; [reflexivity|]. unfold full. cbn [dat]. induction (Z.to_nat (prodZ sh)) as [|n IH]; cbn [repeat]; constructor; auto.
+  apply vrel_Big.
+Qed.
+
+(* the conclusion of the theorems: entry by entry, multiplied by c or Big on both sides ... *)
+Definition TRel3 (nz nx ny : Z) (c : R) (tt tt' : arr R) : Prop :=
+  wf tt /\ wf tt' /\ shape tt = [nz; nx; ny] /\ shape tt' = [nz; nx; ny] /\
+  forall i j k, (0 <= i < nz)%Z -> (0 <= j < nx)%Z -> (0 <= k < ny)%Z -> trel c (get 0 tt [i; j; k]) (get 0 tt' [i; j; k]).
+(* ... and reached (< Big) on both sides or on neither *)
+Definition SameReach3 (nz nx ny : Z) (a a' : arr R) : Prop :=
+  forall i j k, (0 <= i < nz)%Z -> (0 <= j < nx)%Z -> (0 <= k < ny)%Z ->
+    (get 0 a [i; j; k] = BigR /\ get 0 a' [i; j; k] = BigR) \/ (get 0 a [i; j; k] < BigR /\ get 0 a' [i; j; k] < BigR).
+
+Lemma GRel_TRel3 nz nx ny c a a' :
+  wf a -> wf a' -> shape a = [nz; nx; ny] -> GRel c a a' -> TRel3 nz nx ny c a a' /\ SameReach3 nz nx ny a a'.
+Proof.
+  intros W W' S G. pose proof G as [Es _]. split.
+  - split; [exact W|]. split; [exact W'|]. split; [exact S|]. split; [congruence|].
+    intros i j k _ _ _. apply vrel_trel, GRel_get, G.
+  - intros i j k _ _ _. destruct (GRel_get c a a' [i; j; k] G) as [(_ & L & L')|E]; [right | left]; auto.
+Qed.
+
+Lemma TRel3_SameReach3_spelled_out nz nx ny c tt tt' :
+  TRel3 nz nx ny c tt tt' -> SameReach3 nz nx ny tt tt' ->
+  forall i j k, (0 <= i < nz)%Z -> (0 <= j < nx)%Z -> (0 <= k < ny)%Z ->
+    (get 0 tt' [i; j; k] = c * get 0 tt [i; j; k] /\ get 0 tt [i; j; k] < BigR /\ get 0 tt' [i; j; k] < BigR) \/
+    (get 0 tt [i; j; k] = BigR /\ get 0 tt' [i; j; k] = BigR).
+Proof.
+  intros (_ & _ & _ & _ & Hg) Hr i j k Hi Hj Hk. destruct (Hg i j k Hi Hj Hk) as [E|[E E']]; [|right; auto].
+  destruct (Hr i j k Hi Hj Hk) as [[B B']|[L L']]; [right; auto | left; auto].
+Qed.
+
+(* ========================================================================================== *)
+(* 5. one call of sweep3d = a list of node updates                                              *)
+(* ========================================================================================== *)
+Lemma fold_left_map {A B C} (f : A -> B -> A) (g : C -> B) l a :
+  fold_left f (map g l) a = fold_left (fun a x => f a (g x)) l a.
+Proof. revert a. induction l as [|x l IH]; intros a; cbn; auto. Qed.
+Lemma fold_left_flat_map {A B C} (f : A -> B -> A) (g : C -> list B) l a :
+  fold_left f (flat_map g l) a = fold_left (fun a x => fold_left f (g x) a) l a.
+Proof. revert a. induction l as [|x l IH]; intros a; cbn; auto. rewrite fold_left_app. apply IH. Qed.
+Lemma fold_left_ext {A B} (f g : A -> B -> A) l a : (forall a x, f a x = g a x) -> fold_left f l a = fold_left g l a.
+Proof. intros E. revert a. induction l as [|x l IH]; intros a; cbn; auto. rewrite E. apply IH. Qed.
+
+(* a node update: (uz, ux, uy, i, j, k) = z- / x- / y-direction ascending?, node *)
+Definition step3 : Type := (bool * bool * bool * Z * Z * Z)%type.
+
+(* C holds before every element of the fold *)
+Fixpoint Along {S A} (f : A -> S -> S) (C : A -> S -> Prop) (l : list A) (s : S) : Prop :=
+  match l with
+  | [] => True
+  | a :: l' => C a s /\ Along f C l' (f a s)
+  end.
+
+Lemma fold_rel {S S' A} (Rl : S -> S' -> Prop) (f : A -> S -> S) (f' : A -> S' -> S') (C : A -> S -> Prop) l :
+  (forall a s s', Rl s s' -> C a s -> Rl (f a s) (f' a s')) ->
+  forall s s', Rl s s' -> Along f C l s ->
+  Rl (fold_left (fun t a => f a t) l s) (fold_left (fun t a => f' a t) l s').
+Proof.
+  intros Hf. induction l as [|a l IH]; intros s s' H0 HA; cbn; [exact H0|].
+  destruct HA as [Ca HA]. apply IH; [apply Hf; assumption | exact HA].
+Qed.
+
+Section Steps.
+Variables (nz nx ny : Z).
+Definition pass_steps3 (uz ux uy : bool) : list step3 :=
+  flat_map (fun k => flat_map (fun j => map (fun i => (uz, ux, uy, i, j, k)) (dir_range uz nz)) (dir_range ux nx))
+           (dir_range uy ny).
+(* the node updates of one call of sweep3d, in program order *)
+Definition sweep_steps3 : list step3 :=
+  pass_steps3 true true true ++ pass_steps3 true false true ++ pass_steps3 true true false ++ pass_steps3 true false false ++
+  pass_steps3 false true true ++ pass_steps3 false false true ++ pass_steps3 false true false ++ pass_steps3 false false false.
+
+Variables (slow : arr R) (dargs : R * R * R * R * R * R * R * R * R * R).
+Definition do_step3 (s : step3) (tt : arr R) : arr R :=
+  let '(uz, ux, uy, i, j, k) := s in
+  swT nz nx ny slow dargs (sgnv uz) (sgnv ux) (sgnv uy) (sgnt uz) (sgnt ux) (sgnt uy) i j k tt.
+Definition run3 (l : list step3) (tt : arr R) : arr R := fold_left (fun t s => do_step3 s t) l tt.
+
+Lemma run3_app l1 l2 tt : run3 (l1 ++ l2) tt = run3 l2 (run3 l1 tt).
+Proof. unfold run3. apply fold_left_app. Qed.
+
+Lemma pass3T_run uz ux uy tt : pass3T nz nx ny slow dargs uz ux uy tt = run3 (pass_steps3 uz ux uy) tt.
+Proof.
+  unfold pass3T, run3, pass_steps3, for_list. rewrite fold_left_flat_map. apply fold_left_ext. intros a kk.
+  rewrite fold_left_flat_map. apply fold_left_ext. intros b jj. rewrite fold_left_map. reflexivity.
+Qed.
+Lemma sweep3dT_run tt : sweep3dT nz nx ny slow dargs tt = run3 sweep_steps3 tt.
+Proof. unfold sweep3dT, sweep_steps3. cbv zeta. rewrite !run3_app, !pass3T_run. reflexivity. Qed.
+End Steps.
+
+(* the traveltime part of sweep3d, with the tuple of spacing constants it builds *)
+Lemma sweep3d_fst_run (tt : arr R) ttsgn (slow : arr R) (dz dx dy : R) nz nx ny grad :
+  fst (sweep3d tt ttsgn slow dz dx dy nz nx ny grad) = run3 nz nx ny slow (dargs3 dz dx dy) (sweep_steps3 nz nx ny) tt.
+Proof. rewrite sweep3d_proj_dargs3. apply sweep3dT_run. Qed.
+
+(* the value written by a node update, through the values it reads *)
+Lemma node_value_nv3 (tt slow : arr R) (dz dx dy : R) i j k sgnvz sgnvx sgnvy sgntz sgntx sgnty nz nx ny :
+  node_value_sp true tt slow dz dx dy i j k sgnvz sgnvx sgnvy sgntz sgntx sgnty nz nx ny
+  = nv3 (get 0 tt [i; j; k]) (nb_v tt i j k sgntz) (nb_e tt i j k sgntx) (nb_n tt i j k sgnty)
+        (nb_ev tt i j k sgntz sgntx) (nb_en tt i j k sgntx sgnty) (nb_nv tt i j k sgntz sgnty) (nb_nve tt i j k sgntz sgntx sgnty)
+        (edge_s_z slow i j k sgnvz nx ny) (edge_s_x slow i j k sgnvx nz ny) (edge_s_y slow i j k sgnvy nz nx)
+        (face_s_zx slow i j k sgnvz sgnvx ny) (face_s_zy slow i j k sgnvz sgnvy nx) (face_s_xy slow i j k sgnvx sgnvy nz)
+        (cell_s slow i j k sgnvz sgnvx sgnvy) dz dx dy.
+Proof.
+  unfold node_value_sp, node_value, nv3, c_t3d, c_t2d, c_t1d, t3c, g3. cbv zeta. rewrite ?pl_zy, ?pl_xy, ?pl_zx. reflexivity.
+Qed.
+
+(* THE CAVEAT of a node update, on the grid of the REFERENCE run just before the update *)
+Definition NodeCav3 (c : R) (nz nx ny : Z) (slow : arr R) (dz dx dy : R) (s : step3) (tt : arr R) : Prop :=
+  let '(uz, ux, uy, i, j, k) := s in
+  node_cav3 c (get 0 tt [i; j; k]) (nb_v tt i j k (sgnt uz)) (nb_e tt i j k (sgnt ux)) (nb_n tt i j k (sgnt uy))
+    (nb_ev tt i j k (sgnt uz) (sgnt ux)) (nb_en tt i j k (sgnt ux) (sgnt uy)) (nb_nv tt i j k (sgnt uz) (sgnt uy))
+    (nb_nve tt i j k (sgnt uz) (sgnt ux) (sgnt uy))
+    (edge_s_z slow i j k (sgnv uz) nx ny) (edge_s_x slow i j k (sgnv ux) nz ny) (edge_s_y slow i j k (sgnv uy) nz nx)
+    (face_s_zx slow i j k (sgnv uz) (sgnv ux) ny) (face_s_zy slow i j k (sgnv uz) (sgnv uy) nx)
+    (face_s_xy slow i j k (sgnv ux) (sgnv uy) nz) (cell_s slow i j k (sgnv uz) (sgnv ux) (sgnv uy)) dz dx dy.
+
+Section StepRel.
+Variables (c : R) (k : skind).
+Hypothesis Hc : 0 < c.
+
+Lemma pymin2_sc_v (x y : R) : pymin2 (sc_v k c x) (sc_v k c y) = sc_v k c (pymin2 x y).
+Proof. destruct k; cbn [InitExact.sc_v]; [apply pymin2_scale, Hc | reflexivity]. Qed.
+Lemma pymin4_sc_v (x y z w : R) : pymin4 (sc_v k c x) (sc_v k c y) (sc_v k c z) (sc_v k c w) = sc_v k c (pymin4 x y z w).
+Proof. unfold pymin4, pymin3. rewrite !pymin2_sc_v. reflexivity. Qed.
+
+Lemma edge_s_z_sc slow i j kk sgnvz nx ny : edge_s_z (sc_slow k c slow) i j kk sgnvz nx ny = sc_v k c (edge_s_z slow i j kk sgnvz nx ny).
+Proof. unfold edge_s_z. nr. rewrite !get_sc_slow. apply pymin4_sc_v. Qed.
+Lemma edge_s_x_sc slow i j kk sgnvx nz ny : edge_s_x (sc_slow k c slow) i j kk sgnvx nz ny = sc_v k c (edge_s_x slow i j kk sgnvx nz ny).
+Proof. unfold edge_s_x. nr. rewrite !get_sc_slow. apply pymin4_sc_v. Qed.
+Lemma edge_s_y_sc slow i j kk sgnvy nz nx : edge_s_y (sc_slow k c slow) i j kk sgnvy nz nx = sc_v k c (edge_s_y slow i j kk sgnvy nz nx).
+Proof. unfold edge_s_y. nr. rewrite !get_sc_slow. apply pymin4_sc_v. Qed.
+Lemma face_s_zx_sc slow i j kk sgnvz sgnvx ny : face_s_zx (sc_slow k c slow) i j kk sgnvz sgnvx ny = sc_v k c (face_s_zx slow i j kk sgnvz sgnvx ny).
+Proof. unfold face_s_zx. nr. rewrite !get_sc_slow. apply pymin2_sc_v. Qed.
+Lemma face_s_zy_sc slow i j kk sgnvz sgnvy nx : face_s_zy (sc_slow k c slow) i j kk sgnvz sgnvy nx = sc_v k c (face_s_zy slow i j kk sgnvz sgnvy nx).
+Proof. unfold face_s_zy. nr. rewrite !get_sc_slow. apply pymin2_sc_v. Qed.
+Lemma face_s_xy_sc slow i j kk sgnvx sgnvy nz : face_s_xy (sc_slow k c slow) i j kk sgnvx sgnvy nz = sc_v k c (face_s_xy slow i j kk sgnvx sgnvy nz).
+Proof. unfold face_s_xy. nr. rewrite !get_sc_slow. apply pymin2_sc_v. Qed.
+Lemma cell_s_sc slow i j kk sgnvz sgnvx sgnvy : cell_s (sc_slow k c slow) i j kk sgnvz sgnvx sgnvy = sc_v k c (cell_s slow i j kk sgnvz sgnvx sgnvy).
+Proof. unfold cell_s. nr. apply get_sc_slow. Qed.
+
+(* (1) NODE LEVEL, on the generated code: one call of Fteik3d.sweep (any node, any direction signs, any gradient
+   bookkeeping) with the tuple of spacing constants sweep3d builds, under both unit changes *)
+Theorem sweep_node_scale nz nx ny (slow : arr R) (dz dx dy : R) (tt tt' : arr R) ttsgn ttsgn'
+        i j kk sgnvz sgnvx sgnvy sgntz sgntx sgnty grad grad' :
+  0 < dz -> 0 < dx -> 0 < dy -> nonneg slow -> GRel c tt tt' ->
+  node_cav3 c (get 0 tt [i; j; kk]) (nb_v tt i j kk sgntz) (nb_e tt i j kk sgntx) (nb_n tt i j kk sgnty)
+    (nb_ev tt i j kk sgntz sgntx) (nb_en tt i j kk sgntx sgnty) (nb_nv tt i j kk sgntz sgnty) (nb_nve tt i j kk sgntz sgntx sgnty)
+    (edge_s_z slow i j kk sgnvz nx ny) (edge_s_x slow i j kk sgnvx nz ny) (edge_s_y slow i j kk sgnvy nz nx)
+    (face_s_zx slow i j kk sgnvz sgnvx ny) (face_s_zy slow i j kk sgnvz sgnvy nx) (face_s_xy slow i j kk sgnvx sgnvy nz)
+    (cell_s slow i j kk sgnvz sgnvx sgnvy) dz dx dy ->
+  GRel c (fst (sweep tt ttsgn slow (dargs3 dz dx dy) i j kk sgnvz sgnvx sgnvy sgntz sgntx sgnty nz nx ny grad))
+         (fst (sweep tt' ttsgn' (sc_slow k c slow) (dargs3 (sc_h k c dz) (sc_h k c dx) (sc_h k c dy))
+                     i j kk sgnvz sgnvx sgnvy sgntz sgntx sgnty nz nx ny grad')).
+Proof.
+  intros Hdz Hdx Hdy Hs G HN.
+  rewrite !sweep_dargs3_eq. apply GRel_set; [exact G|]. rewrite !node_value_nv3.
+  rewrite edge_s_z_sc, edge_s_x_sc, edge_s_y_sc, face_s_zx_sc, face_s_zy_sc, face_s_xy_sc, cell_s_sc.
+  apply node_rel; try assumption.
+  - unfold edge_s_z. nr. apply pymin4_get_nonneg, Hs.
+  - unfold edge_s_x. nr. apply pymin4_get_nonneg, Hs.
+  - unfold edge_s_y. nr. apply pymin4_get_nonneg, Hs.
+  - unfold face_s_zx. nr. apply pymin2_ge; apply get_nonneg, Hs.
+  - unfold face_s_zy. nr. apply pymin2_ge; apply get_nonneg, Hs.
+  - unfold face_s_xy. nr. apply pymin2_ge; apply get_nonneg, Hs.
+  - unfold cell_s. nr. apply get_nonneg, Hs.
+  - apply GRel_get, G.
+  - apply (GRel_get c tt tt'), G.
+  - apply (GRel_get c tt tt'), G.
+  - apply (GRel_get c tt tt'), G.
+  - apply (GRel_get c tt tt'), G.
+  - apply (GRel_get c tt tt'), G.
+  - apply (GRel_get c tt tt'), G.
+  - apply (GRel_get c tt tt'), G.
+Qed.
+
+(* the tuple of spacing constants of the scaled run: dz2i etc. / c^2, pairwise products / c^4, dsum / c^2 *)
+Lemma dargs3_sc (dz dx dy : R) :
+  dargs3 (sc_h k c dz) (sc_h k c dx) (sc_h k c dy)
+  = (sc_h k c dz, sc_h k c dx, sc_h k c dy, sc_i2 k c (1 / dz / dz), sc_i2 k c (1 / dx / dx), sc_i2 k c (1 / dy / dy),
+     sc_i2 k c (1 / dz / dz) * sc_i2 k c (1 / dx / dx), sc_i2 k c (1 / dz / dz) * sc_i2 k c (1 / dy / dy),
+     sc_i2 k c (1 / dx / dx) * sc_i2 k c (1 / dy / dy), sc_i2 k c (1 / dz / dz + 1 / dx / dx + 1 / dy / dy)).
+Proof. rewrite dargs3_R, !sc_inv2, (sc_i2_sum c k Hc). reflexivity. Qed.
+Lemma dargs3_length (dz dx dy : R) :
+  0 < c ->
+  dargs3 (c * dz) (c * dx) (c * dy)
+  = (c * dz, c * dx, c * dy, 1 / dz / dz / (c * c), 1 / dx / dx / (c * c), 1 / dy / dy / (c * c),
+     1 / dz / dz * (1 / dx / dx) / (c * c * c * c), 1 / dz / dz * (1 / dy / dy) / (c * c * c * c),
+     1 / dx / dx * (1 / dy / dy) / (c * c * c * c), (1 / dz / dz + 1 / dx / dx + 1 / dy / dy) / (c * c)).
+Proof.
+  intros Hc'. rewrite dargs3_R.
+  replace (1 / (c * dz) / (c * dz)) with (1 / dz / dz / (c * c)) by (unfold Rdiv; rewrite !Rinv_mult; ring).
+  replace (1 / (c * dx) / (c * dx)) with (1 / dx / dx / (c * c)) by (unfold Rdiv; rewrite !Rinv_mult; ring).
+  replace (1 / (c * dy) / (c * dy)) with (1 / dy / dy / (c * c)) by (unfold Rdiv; rewrite !Rinv_mult; ring).
+  set (p := 1 / dz / dz). set (q := 1 / dx / dx). set (r := 1 / dy / dy).
+  replace (p / (c * c) * (q / (c * c))) with (p * q / (c * c * c * c)) by (field; lra).
+  replace (p / (c * c) * (r / (c * c))) with (p * r / (c * c * c * c)) by (field; lra).
+  replace (q / (c * c) * (r / (c * c))) with (q * r / (c * c * c * c)) by (field; lra).
+  replace (p / (c * c) + q / (c * c) + r / (c * c)) with ((p + q + r) / (c * c)) by (field; lra).
+  reflexivity.
+Qed.
+
+Theorem do_step3_rel nz nx ny slow dz dx dy s tt tt' :
+  0 < dz -> 0 < dx -> 0 < dy -> nonneg slow -> GRel c tt tt' -> NodeCav3 c nz nx ny slow dz dx dy s tt ->
+  GRel c (do_step3 nz nx ny slow (dargs3 dz dx dy) s tt)
+         (do_step3 nz nx ny (sc_slow k c slow) (dargs3 (sc_h k c dz) (sc_h k c dx) (sc_h k c dy)) s tt').
+Proof.
+  intros Hdz Hdx Hdy Hs G HN. destruct s as [[[[[uz ux] uy] i] j] kk]. unfold do_step3, swT, NodeCav3 in *.
+  apply sweep_node_scale; assumption.
+Qed.
+
+(* (2) PASS LEVEL: a whole list of node updates (a pass, one sweep3d, several) *)
+Theorem run3_rel nz nx ny slow dz dx dy l tt tt' :
+  0 < dz -> 0 < dx -> 0 < dy -> nonneg slow -> GRel c tt tt' ->
+  Along (do_step3 nz nx ny slow (dargs3 dz dx dy)) (NodeCav3 c nz nx ny slow dz dx dy) l tt ->
+  GRel c (run3 nz nx ny slow (dargs3 dz dx dy) l tt)
+         (run3 nz nx ny (sc_slow k c slow) (dargs3 (sc_h k c dz) (sc_h k c dx) (sc_h k c dy)) l tt').
+Proof.
+  intros Hdz Hdx Hdy Hs G HA. unfold run3.
+  apply (fold_rel (GRel c) _ _ (NodeCav3 c nz nx ny slow dz dx dy)); [|exact G | exact HA].
+  intros a s s' Gs Ca. apply do_step3_rel; assumption.
+Qed.
+End StepRel.
+
+(* ========================================================================================== *)
+(* 6. the solver                                                                                *)
+(* ========================================================================================== *)
+(* all node updates of the sweeping phase, in program order: nsweep times the updates of one sweep3d *)
+Definition all_steps3 (nz nx ny nsweep : Z) : list step3 := concat (repeat (sweep_steps3 nz nx ny) (Z.to_nat nsweep)).
+
+Lemma iter_run3 nz nx ny slow dargs l n tt :
+  Nat.iter n (run3 nz nx ny slow dargs l) tt = run3 nz nx ny slow dargs (concat (repeat l n)) tt.
+Proof.
+  revert tt. induction n as [|n IH]; intros tt; [reflexivity|].
+  rewrite Solve2dProofs.iter_succ_r. cbn [repeat concat]. rewrite run3_app. apply IH.
+Qed.
+
+(* one pass of the solver = the node updates of one sweep3d *)
+Lemma ptt3_run (slow : arr R) (dz dx dy : R) grad t :
+  ptt3 slow dz dx dy grad t
+  = run3 (dim slow 0 + 1) (dim slow 1 + 1) (dim slow 2 + 1) slow (dargs3 dz dx dy)
+         (sweep_steps3 (dim slow 0 + 1) (dim slow 1 + 1) (dim slow 2 + 1)) t.
+Proof. unfold ptt3, pass3d. cbn [fst snd]. apply sweep3d_fst_run. Qed.
+
+Lemma Rleb_0_scale c x : 0 < c -> Rleb 0 (c * x) = Rleb 0 x.
+Proof. intros Hc. rewrite <- (Rleb_scale c 0 x Hc). f_equal. ring. Qed.
+
+Section Solver.
+Variables (c : R) (k : skind).
+Hypothesis Hc : 0 < c.
+Variables (slow : arr R) (dz dx dy zsrc xsrc ysrc : R).
+Notation slow' := (sc_slow k c slow).
+Notation dz' := (sc_h k c dz).
+Notation dx' := (sc_h k c dx).
+Notation dy' := (sc_h k c dy).
+Notation zsrc' := (sc_h k c zsrc).
+Notation xsrc' := (sc_h k c xsrc).
+Notation ysrc' := (sc_h k c ysrc).
+Notation NZ := (dim slow 0 + 1)%Z.
+Notation NX := (dim slow 1 + 1)%Z.
+Notation NY := (dim slow 2 + 1)%Z.
+Notation zsa := (zsa3 dz zsrc).
+Notation xsa := (xsa3 dx xsrc).
+Notation ysa := (ysa3 dy ysrc).
+Notation zsi := (zsi3 slow dz zsrc).
+Notation xsi := (xsi3 slow dx xsrc).
+Notation ysi := (ysi3 slow dy ysrc).
+Notation vzero := (vzero3 slow dz dx dy zsrc xsrc ysrc).
+Notation tt0 := (tt0_3d slow dz dx dy zsrc xsrc ysrc).
+Notation tt0' := (tt0_3d slow' dz' dx' dy' zsrc' xsrc' ysrc').
+
+Lemma dim_sc n : dim slow' n = dim slow n.
+Proof. destruct k; reflexivity. Qed.
+
+(* the source position in grid units, hence the source cell, does not depend on the units *)
+Lemma zsa_sc : zsa3 dz' zsrc' = zsa.
+Proof. unfold zsa3. nr. destruct k; cbn [InitExact.sc_h]; [reflexivity | apply div_scale; lra]. Qed.
+Lemma xsa_sc : xsa3 dx' xsrc' = xsa.
+Proof. unfold xsa3. nr. destruct k; cbn [InitExact.sc_h]; [reflexivity | apply div_scale; lra]. Qed.
+Lemma ysa_sc : ysa3 dy' ysrc' = ysa.
+Proof. unfold ysa3. nr. destruct k; cbn [InitExact.sc_h]; [reflexivity | apply div_scale; lra]. Qed.
+Lemma zsi_sc : zsi3 slow' dz' zsrc' = zsi.
+Proof. unfold zsi3. rewrite zsa_sc, dim_sc. reflexivity. Qed.
+Lemma xsi_sc : xsi3 slow' dx' xsrc' = xsi.
+Proof. unfold xsi3. rewrite xsa_sc, dim_sc. reflexivity. Qed.
+Lemma ysi_sc : ysi3 slow' dy' ysrc' = ysi.
+Proof. unfold ysi3. rewrite ysa_sc, dim_sc. reflexivity. Qed.
+Lemma vzero_sc : vzero3 slow' dz' dx' dy' zsrc' xsrc' ysrc' = sc_v k c vzero.
+Proof. unfold vzero3. rewrite zsi_sc, xsi_sc, ysi_sc. apply get_sc_slow. Qed.
+
+Lemma inside3d_sc : inside3d slow' dz' dx' dy' zsrc' xsrc' ysrc' = inside3d slow dz dx dy zsrc xsrc ysrc.
+Proof.
+  unfold inside3d. cbv zeta. rewrite !dim_sc. destruct k; cbn [InitExact.sc_h]; [reflexivity|]. nr.
+  rewrite !Rleb_0_scale, !Rmult_assoc, !Rleb_scale by exact Hc. reflexivity.
+Qed.
+
+Lemma t_ana_sc i j kk za xa ya v : t_ana i j kk dz' dx' dy' za xa ya (sc_v k c v) = c * t_ana i j kk dz dx dy za xa ya v.
+Proof.
+  destruct k; cbn [InitExact.sc_h InitExact.sc_v];
+    [apply Operators3R.t_ana_scale_slowness | apply Operators3R.t_ana_scale_length; lra].
+Qed.
+
+(* ---------- the state before the first sweep ---------- *)
+(* THE CAVEAT of the initialisation, on the REFERENCE run only: the analytical times written at the eight corners of
+   the source cell are below Big, also after multiplication by c *)
+Definition InitCav : Prop :=
+  forall i j kk, (i = zsi \/ i = (zsi + 1)%Z) -> (j = xsi \/ j = (xsi + 1)%Z) -> (kk = ysi \/ kk = (ysi + 1)%Z) ->
+    Below c (t_ana i j kk dz dx dy zsa xsa ysa vzero).
+
+Lemma corner3_rel t t' i j kk :
+  GRel c t t' -> Below c (t_ana i j kk dz dx dy zsa xsa ysa vzero) ->
+  GRel c (corner3 slow dz dx dy zsrc xsrc ysrc t i j kk) (corner3 slow' dz' dx' dy' zsrc' xsrc' ysrc' t' i j kk).
+Proof.
+  intros G [B1 B2]. unfold corner3. apply GRel_set; [exact G|]. rewrite !t_anad_fst.
+  rewrite zsa_sc, xsa_sc, ysa_sc, vzero_sc, t_ana_sc. left. repeat split; assumption.
+Qed.
+
+(* the initial state scales exactly *)
+Lemma init_rel3 : InitCav -> GRel c tt0 tt0'.
+Proof.
+  intros HI. unfold tt0_3d. cbv zeta. rewrite zsi_sc, xsi_sc, ysi_sc, !dim_sc.
+  repeat (apply corner3_rel; [|apply HI; tauto]). apply GRel_full.
+Qed.
+
+(* ---------- the sweeping phase ---------- *)
+(* THE CAVEAT of the sweeping phase, on the REFERENCE run only: `NodeCav3` holds before every node update, in the grid
+   the reference run has reached at that point (`Along` follows the run update by update) *)
+Definition SweepCav3 (nsweep : Z) : Prop :=
+  Along (do_step3 NZ NX NY slow (dargs3 dz dx dy)) (NodeCav3 c NZ NX NY slow dz dx dy) (all_steps3 NZ NX NY nsweep) tt0.
+
+Hypotheses (Hdz : 0 < dz) (Hdx : 0 < dx) (Hdy : 0 < dy).
+
+Lemma sweeps_rel3 grad nsweep t t' :
+  nonneg slow -> GRel c t t' ->
+  Along (do_step3 NZ NX NY slow (dargs3 dz dx dy)) (NodeCav3 c NZ NX NY slow dz dx dy) (all_steps3 NZ NX NY nsweep) t ->
+  GRel c (Nat.iter (Z.to_nat nsweep) (ptt3 slow dz dx dy grad) t)
+         (Nat.iter (Z.to_nat nsweep) (ptt3 slow' dz' dx' dy' grad) t').
+Proof.
+  intros Hs G HA.
+  rewrite (Solve2dProofs.iter_ext _ _ (ptt3_run slow dz dx dy grad)), (Solve2dProofs.iter_ext _ _ (ptt3_run slow' dz' dx' dy' grad)).
+  rewrite !iter_run3, !dim_sc. apply run3_rel; assumption.
+Qed.
+
+Theorem solver_rel3 nsweep grad tt g vz :
+  (0 <= dim slow 0)%Z -> (0 <= dim slow 1)%Z -> (0 <= dim slow 2)%Z -> nonneg slow ->
+  fteik3d slow dz dx dy zsrc xsrc ysrc nsweep grad = Ok (tt, g, vz) ->
+  InitCav -> SweepCav3 nsweep ->
+  exists tt' g', fteik3d slow' dz' dx' dy' zsrc' xsrc' ysrc' nsweep grad = Ok (tt', g', sc_v k c vz) /\
+                 TRel3 NZ NX NY c tt tt' /\ SameReach3 NZ NX NY tt tt'.
+Proof.
+  intros Hnz Hnx Hny Hs E HI HS. apply fteik3d_ok_inv in E as (Hin & -> & ->).
+  destruct (fteik3d_char slow' dz' dx' dy' zsrc' xsrc' ysrc' nsweep grad) as [G' E']. rewrite inside3d_sc, Hin in E'.
+  rewrite (Solve2dProofs.iter_fst_pair _ _ (pass3d_fst slow' dz' dx' dy' grad)) in E'. rewrite vzero_sc in E'.
+  eexists. exists G'. split; [exact E'|].
+  assert (O0 : okT NZ NX NY tt0) by (apply fteik3d_init_okT; assumption).
+  assert (O0' : okT NZ NX NY tt0').
+  { pose proof (fteik3d_init_okT slow' dz' dx' dy' zsrc' xsrc' ysrc') as O. rewrite !dim_sc in O. apply O; assumption. }
+  pose proof (iter_ptt3_okT slow dz dx dy grad _ (Z.to_nat nsweep) O0) as [W S].
+  pose proof (iter_ptt3_okT slow' dz' dx' dy' grad) as O'. rewrite !dim_sc in O'.
+  destruct (O' _ (Z.to_nat nsweep) O0') as [W' S'].
+  apply GRel_TRel3; try assumption.
+  apply sweeps_rel3; [exact Hs | apply init_rel3, HI | exact HS].
+Qed.
+End Solver.
+
+(* ========================================================================================== *)
+(* 7. C05 for fteik3d                                                                           *)
+(* ========================================================================================== *)
+(* (3) the raise behaviour does not depend on the units: no caveat, no hypothesis on the model *)
+Theorem fteik3d_scale_raises (c : R) (k : skind) (slow : arr R) (dz dx dy zsrc xsrc ysrc : R) nsweep grad :
+  0 < c ->
+  (fteik3d (sc_slow k c slow) (sc_h k c dz) (sc_h k c dx) (sc_h k c dy) (sc_h k c zsrc) (sc_h k c xsrc) (sc_h k c ysrc) nsweep grad
+   = Raise ValueError
+   <-> fteik3d slow dz dx dy zsrc xsrc ysrc nsweep grad = Raise ValueError).
+Proof.
+  intros Hc.
+  destruct (fteik3d_char (sc_slow k c slow) (sc_h k c dz) (sc_h k c dx) (sc_h k c dy) (sc_h k c zsrc) (sc_h k c xsrc)
+              (sc_h k c ysrc) nsweep grad) as [G' E'].
+  destruct (fteik3d_char slow dz dx dy zsrc xsrc ysrc nsweep grad) as [G E].
+  rewrite E', E, (inside3d_sc c k Hc). destruct (inside3d slow dz dx dy zsrc xsrc ysrc); split; intros H; (discriminate H || reflexivity).
+Qed.
+
+Corollary fteik3d_scale_slowness_raises (c : R) (slow : arr R) (dz dx dy zsrc xsrc ysrc : R) nsweep grad :
+  0 < c ->
+  (fteik3d (smap c slow) dz dx dy zsrc xsrc ysrc nsweep grad = Raise ValueError
+   <-> fteik3d slow dz dx dy zsrc xsrc ysrc nsweep grad = Raise ValueError).
+Proof. exact (fteik3d_scale_raises c Slowness slow dz dx dy zsrc xsrc ysrc nsweep grad). Qed.
+Corollary fteik3d_scale_length_raises (c : R) (slow : arr R) (dz dx dy zsrc xsrc ysrc : R) nsweep grad :
+  0 < c ->
+  (fteik3d slow (c * dz) (c * dx) (c * dy) (c * zsrc) (c * xsrc) (c * ysrc) nsweep grad = Raise ValueError
+   <-> fteik3d slow dz dx dy zsrc xsrc ysrc nsweep grad = Raise ValueError).
+Proof. exact (fteik3d_scale_raises c Length slow dz dx dy zsrc xsrc ysrc nsweep grad). Qed.
+
+(* the same, for every outcome: Ok in one unit system iff Ok in the other *)
+Corollary fteik3d_scale_ok_iff (c : R) (k : skind) (slow : arr R) (dz dx dy zsrc xsrc ysrc : R) nsweep grad :
+  0 < c ->
+  ((exists r, fteik3d (sc_slow k c slow) (sc_h k c dz) (sc_h k c dx) (sc_h k c dy) (sc_h k c zsrc) (sc_h k c xsrc)
+                      (sc_h k c ysrc) nsweep grad = Ok r)
+   <-> (exists r, fteik3d slow dz dx dy zsrc xsrc ysrc nsweep grad = Ok r)).
+Proof.
+  intros Hc.
+  destruct (fteik3d_char (sc_slow k c slow) (sc_h k c dz) (sc_h k c dx) (sc_h k c dy) (sc_h k c zsrc) (sc_h k c xsrc)
+              (sc_h k c ysrc) nsweep grad) as [G' E'].
+  destruct (fteik3d_char slow dz dx dy zsrc xsrc ysrc nsweep grad) as [G E].
+  rewrite E', E, (inside3d_sc c k Hc). destruct (inside3d slow dz dx dy zsrc xsrc ysrc); split; intros [r H];
+    first [discriminate H | eexists; reflexivity].
+Qed.
+
+(* (2) slowness unit: every slowness multiplied by c > 0 *)
+Theorem fteik3d_scale_slowness (c : R) (slow : arr R) (dz dx dy zsrc xsrc ysrc : R) nsweep grad (tt g : arr R) (vz : R) :
+  0 < c -> 0 < dz -> 0 < dx -> 0 < dy -> (0 <= dim slow 0)%Z -> (0 <= dim slow 1)%Z -> (0 <= dim slow 2)%Z -> nonneg slow ->
+  fteik3d slow dz dx dy zsrc xsrc ysrc nsweep grad = Ok (tt, g, vz) ->
+  forall (Hinit : InitCav c slow dz dx dy zsrc xsrc ysrc)
+         (Hsweep : SweepCav3 c slow dz dx dy zsrc xsrc ysrc nsweep),
+  exists tt' g', fteik3d (smap c slow) dz dx dy zsrc xsrc ysrc nsweep grad = Ok (tt', g', c * vz) /\
+                 TRel3 (dim slow 0 + 1) (dim slow 1 + 1) (dim slow 2 + 1) c tt tt' /\
+                 SameReach3 (dim slow 0 + 1) (dim slow 1 + 1) (dim slow 2 + 1) tt tt'.
+Proof.
+  intros Hc Hdz Hdx Hdy Hnz Hnx Hny Hs E Hinit Hsweep.
+  exact (solver_rel3 c Slowness Hc slow dz dx dy zsrc xsrc ysrc Hdz Hdx Hdy nsweep grad tt g vz Hnz Hnx Hny Hs E Hinit Hsweep).
+Qed.
+
+(* (2) length unit: the three spacings and the three source coordinates multiplied by c > 0 *)
+Theorem fteik3d_scale_length (c : R) (slow : arr R) (dz dx dy zsrc xsrc ysrc : R) nsweep grad (tt g : arr R) (vz : R) :
+  0 < c -> 0 < dz -> 0 < dx -> 0 < dy -> (0 <= dim slow 0)%Z -> (0 <= dim slow 1)%Z -> (0 <= dim slow 2)%Z -> nonneg slow ->
+  fteik3d slow dz dx dy zsrc xsrc ysrc nsweep grad = Ok (tt, g, vz) ->
+  forall (Hinit : InitCav c slow dz dx dy zsrc xsrc ysrc)
+         (Hsweep : SweepCav3 c slow dz dx dy zsrc xsrc ysrc nsweep),
+  exists tt' g', fteik3d slow (c * dz) (c * dx) (c * dy) (c * zsrc) (c * xsrc) (c * ysrc) nsweep grad = Ok (tt', g', vz) /\
+                 TRel3 (dim slow 0 + 1) (dim slow 1 + 1) (dim slow 2 + 1) c tt tt' /\
+                 SameReach3 (dim slow 0 + 1) (dim slow 1 + 1) (dim slow 2 + 1) tt tt'.
+Proof.
+  intros Hc Hdz Hdx Hdy Hnz Hnx Hny Hs E Hinit Hsweep.
+  exact (solver_rel3 c Length Hc slow dz dx dy zsrc xsrc ysrc Hdz Hdx Hdy nsweep grad tt g vz Hnz Hnx Hny Hs E Hinit Hsweep).
+Qed.
+
+(* ========================================================================================== *)
+(* 8. a sufficient, purely numerical form of the caveat                                         *)
+(* ========================================================================================== *)
+Lemma Below_mono c q q' : 0 < c -> q <= q' -> Below c q' -> Below c q.
+Proof. intros Hc Hq [B1 B2]. split; [lra | nra]. Qed.
+(* c >= 1: only the scaled value matters;  c <= 1: only the reference value matters (for non-negative quantities) *)
+Lemma Below_ge1 c q : 1 <= c -> 0 <= q -> c * q < BigR -> Below c q.
+Proof. intros Hc Hq H. split; [nra | exact H]. Qed.
+Lemma Below_le1 c q : 0 < c <= 1 -> 0 <= q -> q < BigR -> Below c q.
+Proof. intros Hc Hq H. split; [exact H | nra]. Qed.
+
+(* every entry is the placeholder or lies in [0, M] *)
+Definition Bnd (M : R) (a : arr R) : Prop := Forall (fun x => x = BigR \/ 0 <= x <= M) (dat a).
+(* every slowness lies in [0, S] *)
+Definition SlowBnd (S : R) (slow : arr R) : Prop := Forall (fun x => 0 <= x <= S) (dat slow).
+
+Lemma Forall_upd {A} (P : A -> Prop) l n v : Forall P l -> P v -> Forall P (upd l n v).
+Proof. intros F Hv. revert n. induction F as [|x l Hx F IH]; intros [|n]; cbn [upd]; constructor; auto. Qed.
+
+Lemma Bnd_get M a idx : 0 <= M -> Bnd M a -> get 0 a idx = BigR \/ 0 <= get 0 a idx <= M.
+Proof.
+  intros HM Ha. unfold get. destruct (nth_in_or_default (Z.to_nat (flat (shape a) idx)) (dat a) 0) as [Hin | ->].
+  - unfold Bnd in Ha. rewrite Forall_forall in Ha. apply Ha, Hin.
+  - right. lra.
+Qed.
+Lemma Bnd_set M a idx v : Bnd M a -> (v = BigR \/ 0 <= v <= M) -> Bnd M (set a idx v).
+Proof. intros Ha Hv. unfold Bnd, set. cbn [dat]. apply Forall_upd; assumption. Qed.
+Lemma Bnd_mono M M' a : M <= M' -> Bnd M a -> Bnd M' a.
+Proof. intros HM Ha. unfold Bnd in *. eapply Forall_impl; [|exact Ha]. cbv beta. intros x [E|B]; [left; exact E | right; lra]. Qed.
+Lemma Bnd_full M sh : Bnd M (full sh BigR).
+Proof. unfold Bnd, full. cbn [dat]. rewrite Forall_forall. intros x Hx. apply repeat_spec in Hx. left. exact Hx. Qed.
+Lemma SlowBnd_get S slow idx : 0 <= S -> SlowBnd S slow -> 0 <= get 0 slow idx <= S.
+Proof.
+  intros HS Hs. unfold get. destruct (nth_in_or_default (Z.to_nat (flat (shape slow) idx)) (dat slow) 0) as [Hin | ->].
+  - unfold SlowBnd in Hs. rewrite Forall_forall in Hs. apply Hs, Hin.
+  - lra.
+Qed.
+Lemma SlowBnd_nonneg S slow : SlowBnd S slow -> nonneg slow.
+Proof. intros Hs. unfold SlowBnd, nonneg in *. eapply Forall_impl; [|exact Hs]. cbv beta. intros x B; lra. Qed.
+
+Lemma pymin2_bnd (lo hi a b : R) : lo <= a <= hi -> lo <= b <= hi -> lo <= pymin2 a b <= hi.
+Proof. intros Ha Hb. rewrite pymin2_R. destruct (Rltb b a); assumption. Qed.
+Lemma pymin4_bnd (lo hi a b d e : R) : lo <= a <= hi -> lo <= b <= hi -> lo <= d <= hi -> lo <= e <= hi -> lo <= pymin4 a b d e <= hi.
+Proof. intros. unfold pymin4, pymin3. repeat apply pymin2_bnd; assumption. Qed.
+Lemma pymin2_pick (a b : R) : pymin2 a b = a \/ pymin2 a b = b.
+Proof. rewrite pymin2_R. destruct (Rltb b a); auto. Qed.
+Lemma pymin3_pick (a b d : R) : pymin3 a b d = a \/ pymin3 a b d = b \/ pymin3 a b d = d.
+Proof. unfold pymin3. destruct (pymin2_pick (pymin2 a b) d) as [->| ->]; [destruct (pymin2_pick a b); auto | auto]. Qed.
+
+(* the face-diagonal update adds at most 2 h vref *)
+Lemma four_point_diag_le x tev v da db h :
+  0 < da <= h -> 0 < db -> 0 <= v -> four_point x x tev v (1 / da / da) (1 / db / db) <= tev + 2 * h * v.
+Proof.
+  intros [Hda Hh] Hdb Hv. rewrite four_point_shift2. unfold OperatorsR.four_point. cbv zeta.
+  set (a := 1 / da / da). set (b := 1 / db / db).
+  assert (Ha : 0 < a) by (apply inv2_pos, Hda). assert (Hb : 0 < b) by (apply inv2_pos, Hdb).
+  assert (Ea : a * da * da = 1) by (unfold a; field; lra).
+  set (s := sqrt (a + b)). assert (Hs : 0 < s) by (apply sqrt_lt_R0; lra).
+  assert (Ess : s * s = a + b) by (apply sqrt_sqrt; lra).
+  match goal with |- (_ + sqrt ?r) / _ <= _ => replace r with ((2 * v * s) * (2 * v * s)) by (rewrite <- Ess; ring) end.
+  rewrite sqrt_square by (apply Rmult_le_pos; [lra | lra]).
+  assert (H1 : 1 <= h * s).
+  { assert (Hq : 1 <= (h * s) * (h * s)).
+    { replace (h * s * (h * s)) with (h * h * (s * s)) by ring. rewrite Ess.
+      assert (da * da <= h * h) by nra. assert (a * (da * da) <= a * (h * h)) by (apply Rmult_le_compat_l; lra). nra. }
+    assert (0 < h * s) by (apply Rmult_lt_0_compat; lra).
+    destruct (Rle_dec 1 (h * s)) as [Y|N]; [exact Y|]. exfalso. nra. }
+  apply (Rmult_le_reg_r (a + b)); [lra|]. unfold Rdiv. rewrite Rmult_assoc, Rinv_l by lra.
+  assert (K : 0 <= v * s * (h * s - 1)) by (apply Rmult_le_pos; [apply Rmult_le_pos|]; lra).
+  assert (K2 : v * s * (h * s) = v * h * (a + b)) by (rewrite <- Ess; ring).
+  set (A := a + b) in *. replace ((tev - 0 + 0) * a + (tev + 0 - 0) * b) with (tev * A) by (unfold A; ring). lra.
+Qed.
+
+(* the cube-diagonal update adds at most 3 h vref *)
+Lemma diag3_le z v dz dx dy h :
+  0 < dz <= h -> 0 < dx -> 0 < dy -> 0 <= v -> diag3 z v (1 / dz / dz) (1 / dx / dx) (1 / dy / dy) <= z + 3 * h * v.
+Proof.
+  intros [Hdz Hh] Hdx Hdy Hv. unfold diag3.
+  pose proof (inv2_pos dz Hdz) as Hp. pose proof (inv2_pos dx Hdx) as Hq. pose proof (inv2_pos dy Hdy) as Hr.
+  set (p := 1 / dz / dz) in *. set (q := 1 / dx / dx) in *. set (r := 1 / dy / dy) in *.
+  assert (Ep : p * dz * dz = 1) by (unfold p; field; lra).
+  set (s := sqrt (p + q + r)). assert (Hs : 0 < s) by (apply sqrt_lt_R0; lra).
+  assert (Ess : s * s = p + q + r) by (apply sqrt_sqrt; lra).
+  assert (H1 : 1 <= h * s).
+  { assert (Hq2 : 1 <= (h * s) * (h * s)).
+    { replace (h * s * (h * s)) with (h * h * (s * s)) by ring. rewrite Ess.
+      assert (dz * dz <= h * h) by nra. assert (p * (dz * dz) <= p * (h * h)) by (apply Rmult_le_compat_l; lra). nra. }
+    assert (0 < h * s) by (apply Rmult_lt_0_compat; lra).
+    destruct (Rle_dec 1 (h * s)) as [Y|N]; [exact Y|]. exfalso. nra. }
+  assert (K : 3 * v / s <= 3 * h * v).
+  { apply (Rmult_le_reg_r s); [exact Hs|]. unfold Rdiv. rewrite Rmult_assoc, Rinv_l by lra.
+    assert (0 <= v * (h * s - 1)) by (apply Rmult_le_pos; lra). lra. }
+  lra.
+Qed.
+
+(* a plane candidate whose two axial neighbours are unreached: the placeholder, or the face-diagonal update *)
+Lemma pl_BB d v da db h :
+  0 < da <= h -> 0 < db -> 0 <= v ->
+  let P := pl BigR BigR d v da db (1 / da / da) (1 / db / db) in
+  (P = BigR \/ P <= d + 2 * h * v) /\ (0 < v -> P <= d + 2 * h * v).
+Proof.
+  intros Hda Hdb Hv P. subst P. unfold pl.
+  destruct (Rltb BigR (BigR + db * v)) eqn:E1; destruct (Rltb BigR (BigR + da * v)) eqn:E2; cbn [andb]; rb.
+  - pose proof (four_point_diag_le BigR d v da db h Hda Hdb Hv). split; [right|intros _]; assumption.
+  - split; [left; reflexivity|]. intros Hp. exfalso. assert (0 < da * v) by (apply Rmult_lt_0_compat; lra). lra.
+  - split; [left; reflexivity|]. intros Hp. exfalso. assert (0 < db * v) by (apply Rmult_lt_0_compat; lra). lra.
+  - split; [left; reflexivity|]. intros Hp. exfalso. assert (0 < db * v) by (apply Rmult_lt_0_compat; lra). lra.
+Qed.
+
+Lemma pl_nonneg a b d v da db : 0 < da -> 0 < db -> 0 <= v -> 0 <= d -> 0 <= pl a b d v da db (1 / da / da) (1 / db / db).
+Proof.
+  intros Hda Hdb Hv Hd. pose proof BigR_pos.
+  destruct (t2d_zx_ge a b d v da db Hda Hdb Hv) as [E|G]; rewrite pl_zx in *; [rewrite E; lra | lra].
+Qed.
+Lemma t3c_nonneg tv te tn tev ten tnv tnve v p q r m12 : 0 <= tnve -> 0 <= t3c tv te tn tev ten tnv tnve v p q r m12.
+Proof.
+  intros Hd. pose proof BigR_pos. unfold t3c, g3, guard3. nr.
+  destruct (Rltb _ m12); [|lra]. destruct (Rleb _ _); [|lra].
+  match goal with |- 0 <= (if Rltb ?x ?y then _ else _) => destruct (Rltb x y) eqn:E end; rb; lra.
+Qed.
+Lemma pymin4_le (a b d e : R) : pymin4 a b d e <= a /\ pymin4 a b d e <= b /\ pymin4 a b d e <= d /\ pymin4 a b d e <= e.
+Proof.
+  unfold pymin4. destruct (pymin3_le a b d) as (? & ? & ?).
+  pose proof (pymin2_le_l (pymin3 a b d) e). pose proof (pymin2_le_r (pymin3 a b d) e). lra.
+Qed.
+
+Section Bounded.
+Variables (c M h S : R).
+Hypothesis Hc : 0 < c.
+Hypothesis HM : 0 <= M.
+Hypothesis HS : 0 <= S.
+Hypothesis HB : M + 3 * h * S < BigR.
+Variables (dz dx dy : R).
+Hypotheses (Hdz : 0 < dz <= h) (Hdx : 0 < dx <= h) (Hdy : 0 < dy <= h).
+
+Let InB (x : R) : Prop := x = BigR \/ 0 <= x <= M.
+
+(* the value written by a node update is the placeholder or at most M + 3 h S *)
+Lemma nv3_bnd t0 tv te tn tev ten tnv tnve vz vx vy vzx vzy vxy vref :
+  InB t0 -> InB tv -> InB te -> InB tn -> InB tev -> InB ten -> InB tnv -> InB tnve ->
+  0 <= vz <= S -> 0 <= vx <= S -> 0 <= vy <= S -> 0 <= vzx <= S -> 0 <= vzy <= S -> 0 <= vxy <= S -> 0 <= vref <= S ->
+  let v := nv3 t0 tv te tn tev ten tnv tnve vz vx vy vzx vzy vxy vref dz dx dy in
+  v = BigR \/ 0 <= v <= M + 3 * h * S.
+Proof.
+  intros B0 Bv Be Bn Bev Ben Bnv Bnve Hvz Hvx Hvy Hvzx Hvzy Hvxy Hvr v. pose proof BigR_pos as HBp.
+  assert (QhS : 0 <= h * S) by (apply Rmult_le_pos; lra).
+  assert (Q : forall d w, 0 < d <= h -> 0 <= w <= S -> 0 <= d * w <= h * S)
+    by (intros d w Hd Hw; split; [apply Rmult_le_pos; lra | apply Rmult_le_compat; lra]).
+  assert (P : forall t, InB t -> 0 <= t <= BigR) by (intros t [E|B]; lra).
+  pose proof (P _ B0) as P0. pose proof (P _ Bv) as Pv. pose proof (P _ Be) as Pe. pose proof (P _ Bn) as Pn.
+  pose proof (P _ Bev) as Pev. pose proof (P _ Ben) as Pen. pose proof (P _ Bnv) as Pnv. pose proof (P _ Bnve) as Pnve.
+  pose proof (Q dz vz Hdz Hvz) as Qz. pose proof (Q dx vx Hdx Hvx) as Qx. pose proof (Q dy vy Hdy Hvy) as Qy.
+  unfold nv3 in v. cbv zeta in v.
+  set (a1 := tv + dz * vz) in *. set (a2 := te + dx * vx) in *. set (a3 := tn + dy * vy) in *.
+  set (p1 := pl tv te tev vzx dz dx (1 / dz / dz) (1 / dx / dx)) in *.
+  set (p2 := pl tv tn tnv vzy dz dy (1 / dz / dz) (1 / dy / dy)) in *.
+  set (p3 := pl te tn ten vxy dx dy (1 / dx / dx) (1 / dy / dy)) in *.
+  set (t1 := pymin3 a1 a2 a3) in *. set (t2 := pymin3 p1 p2 p3) in *.
+  set (T := t3c tv te tn tev ten tnv tnve vref (1 / dz / dz) (1 / dx / dx) (1 / dy / dy) (pymin2 t1 t2)) in *.
+  destruct (pymin3_le a1 a2 a3) as (U1 & U2 & U3). fold t1 in U1, U2, U3.
+  destruct (pymin3_le p1 p2 p3) as (V1 & V2 & V3). fold t2 in V1, V2, V3.
+  destruct (pymin4_le t0 t1 t2 T) as (X0 & X1 & X2 & X3). fold v in X0, X1, X2, X3.
+  assert (Pos : 0 <= v).
+  { unfold v. apply pymin4_ge; [lra | | |].
+    - unfold t1. apply pymin3_ge; unfold a1, a2, a3; lra.
+    - unfold t2. apply pymin3_ge; apply pl_nonneg; lra.
+    - apply t3c_nonneg; lra. }
+  destruct B0 as [E0|B0]; [|right; lra].
+  destruct Bv as [Ebv|Bv]; [|right; unfold a1 in *; lra].
+  destruct Be as [Ebe|Be]; [|right; unfold a2 in *; lra].
+  destruct Bn as [Ebn|Bn]; [|right; unfold a3 in *; lra].
+  destruct (Rlt_dec v BigR) as [Lv|Nv]; [|left; lra]. right. split; [exact Pos|].
+  assert (Ht1 : BigR <= t1) by (unfold t1; apply pymin3_ge; unfold a1, a2, a3; lra).
+  (* the plane candidates *)
+  assert (D1 : p1 = BigR \/ p1 <= tev + 2 * h * vzx)
+    by (unfold p1; rewrite Ebv, Ebe; apply (pl_BB tev vzx dz dx h Hdz ltac:(lra) ltac:(lra))).
+  assert (D2 : p2 = BigR \/ p2 <= tnv + 2 * h * vzy)
+    by (unfold p2; rewrite Ebv, Ebn; apply (pl_BB tnv vzy dz dy h Hdz ltac:(lra) ltac:(lra))).
+  assert (D3 : p3 = BigR \/ p3 <= ten + 2 * h * vxy)
+    by (unfold p3; rewrite Ebe, Ebn; apply (pl_BB ten vxy dx dy h Hdx ltac:(lra) ltac:(lra))).
+  assert (G1 : BigR <= tev -> BigR <= p1) by (intros G; apply pl_ge; lra).
+  assert (G2 : BigR <= tnv -> BigR <= p2) by (intros G; apply pl_ge; lra).
+  assert (G3 : BigR <= ten -> BigR <= p3) by (intros G; apply pl_ge; lra).
+  assert (K1 : h * vzx <= h * S) by (apply Rmult_le_compat_l; lra).
+  assert (K2 : h * vzy <= h * S) by (apply Rmult_le_compat_l; lra).
+  assert (K3 : h * vxy <= h * S) by (apply Rmult_le_compat_l; lra).
+  assert (K4 : h * vref <= h * S) by (apply Rmult_le_compat_l; lra).
+  assert (A1 : p1 < BigR -> p1 <= M + 2 * h * S) by (intros L; destruct D1 as [D|D]; [lra|]; destruct Bev; lra).
+  assert (A2 : p2 < BigR -> p2 <= M + 2 * h * S) by (intros L; destruct D2 as [D|D]; [lra|]; destruct Bnv; lra).
+  assert (A3 : p3 < BigR -> p3 <= M + 2 * h * S) by (intros L; destruct D3 as [D|D]; [lra|]; destruct Ben; lra).
+  assert (AT : t2 < BigR -> t2 <= M + 2 * h * S).
+  { intros L. destruct (pymin3_pick p1 p2 p3) as [E|[E|E]]; fold t2 in E; rewrite E in *; auto. }
+  (* the 8-point candidate *)
+  assert (BT : T < BigR -> T <= M + 3 * h * S).
+  { intros L. unfold T, t3c in L |- *. rewrite Ebv, Ebe, Ebn, pymax3_same in *.
+    destruct (Rltb BigR (pymin2 t1 t2)) eqn:ET; [|lra]. rb.
+    pose proof (pymin2_le_r t1 t2) as W2.
+    assert (F1 : tev = BigR) by (destruct Bev as [E|B]; [exact E|]; exfalso; destruct D1; lra).
+    assert (F2 : tnv = BigR) by (destruct Bnv as [E|B]; [exact E|]; exfalso; destruct D2; lra).
+    assert (F3 : ten = BigR) by (destruct Ben as [E|B]; [exact E|]; exfalso; destruct D3; lra).
+    rewrite F1, F2, F3 in *. rewrite g3_diag in * by (try apply inv2_pos; lra).
+    pose proof (diag3_le tnve vref dz dx dy h Hdz ltac:(lra) ltac:(lra) ltac:(lra)) as DL.
+    pose proof (diag3_ge tnve vref (1 / dz / dz) (1 / dx / dx) (1 / dy / dy)) as DG.
+    pose proof (inv2_pos dz ltac:(lra)). pose proof (inv2_pos dx ltac:(lra)). pose proof (inv2_pos dy ltac:(lra)).
+    destruct Bnve as [E|B]; [exfalso; lra | lra]. }
+  assert (Ev : v = pymin2 (pymin2 (pymin2 t0 t1) t2) T) by reflexivity.
+  assert (Em : pymin2 t0 t1 = BigR).
+  { rewrite pymin2_R. destruct (Rltb t1 t0) eqn:E; rb; [exfalso; lra | exact E0]. }
+  rewrite Em in Ev. rewrite Ev.
+  destruct (pymin2_pick (pymin2 BigR t2) T) as [E|E]; rewrite E; rewrite <- Ev in E.
+  - destruct (pymin2_pick BigR t2) as [E2|E2]; rewrite E2 in *; [exfalso; lra|].
+    assert (t2 <= M + 2 * h * S) by (apply AT; lra). lra.
+  - apply BT. lra.
+Qed.
+End Bounded.
+
+(* the three lengths of the mixed-pattern clauses are at most Lm *)
+Definition LmixBnd (dz dx dy Lm : R) : Prop :=
+  let p := 1 / dz / dz in let q := 1 / dx / dx in let r := 1 / dy / dy in
+  Lmix (p * q) (p + q + r) <= Lm /\ Lmix (p * r) (p + q + r) <= Lm /\ Lmix (q * r) (p + q + r) <= Lm.
+
+Section BoundedCav.
+Variables (c M h S Lm : R).
+Hypothesis Hc : 0 < c.
+Hypothesis HM : 0 <= M.
+Hypothesis HS : 0 <= S.
+Variables (dz dx dy : R).
+Hypotheses (Hdz : 0 < dz <= h) (Hdx : 0 < dx <= h) (Hdy : 0 < dy <= h).
+Hypothesis HL : LmixBnd dz dx dy Lm.
+Hypothesis HBel : Below c (2 * M + 3 * h * S + 2 * S * Lm).
+
+Let InB (x : R) : Prop := x = BigR \/ 0 <= x <= M.
+
+(* ... and the caveat of the update holds *)
+Lemma node_cav3_of_bnd t0 tv te tn tev ten tnv tnve vz vx vy vzx vzy vxy vref :
+  InB tv -> InB te -> InB tn -> InB tev -> InB ten -> InB tnv -> InB tnve ->
+  0 <= vz <= S -> 0 <= vx <= S -> 0 <= vy <= S -> 0 <= vzx <= S -> 0 <= vzy <= S -> 0 <= vxy <= S -> 0 <= vref <= S ->
+  node_cav3 c t0 tv te tn tev ten tnv tnve vz vx vy vzx vzy vxy vref dz dx dy.
+Proof.
+  intros Bv Be Bn Bev Ben Bnv Bnve Hvz Hvx Hvy Hvzx Hvzy Hvxy Hvr. pose proof BigR_pos as HBp.
+  destruct HL as (L1 & L2 & L3). cbv zeta in L1, L2, L3.
+  assert (QhS : 0 <= h * S) by (apply Rmult_le_pos; lra).
+  assert (HLm : 0 <= Lm) by (pose proof (Lmix_nonneg (1 / dz / dz * (1 / dx / dx)) (1 / dz / dz + 1 / dx / dx + 1 / dy / dy)); lra).
+  assert (QSL : 0 <= S * Lm) by (apply Rmult_le_pos; lra).
+  assert (Q : forall d w, 0 < d <= h -> 0 <= w <= S -> 0 <= d * w <= h * S)
+    by (intros d w Hd Hw; split; [apply Rmult_le_pos; lra | apply Rmult_le_compat; lra]).
+  assert (QL : forall w l, 0 <= w <= S -> 0 <= l <= Lm -> 0 <= w * l <= S * Lm)
+    by (intros w l Hw Hl; split; [apply Rmult_le_pos; lra | apply Rmult_le_compat; lra]).
+  assert (F : forall t, InB t -> t < BigR -> 0 <= t <= M) by (intros t [E|B] L; lra).
+  assert (P : forall t, InB t -> 0 <= t) by (intros t [E|B]; lra).
+  assert (BM : forall x, x <= 2 * M + 3 * h * S + 2 * S * Lm -> Below c x)
+    by (intros x Hx; apply (Below_mono c _ _ Hc Hx HBel)).
+  assert (PC : forall a b d v da db, InB a -> InB b -> InB d -> 0 < da <= h -> 0 < db <= h -> 0 <= v <= S ->
+               plane_cav c a b d v da db).
+  { intros a b d v da db Ba Bb Bd Hda Hdb Hv. pose proof (Q da v Hda Hv). pose proof (Q db v Hdb Hv). split; [|split].
+    - intros _ L _. apply BM. pose proof (F b Bb L). lra.
+    - intros _ L _. apply BM. pose proof (F a Ba L). lra.
+    - intros Ea Eb L Hvp. apply BM. subst a b.
+      destruct (pl_BB d v da db h Hda ltac:(lra) ltac:(lra)) as [_ D]. specialize (D Hvp). cbv zeta in D.
+      pose proof (F d Bd L). assert (h * v <= h * S) by (apply Rmult_le_compat_l; lra). lra. }
+  unfold node_cav3. cbv zeta. repeat match goal with |- _ /\ _ => split end.
+  - intros L. apply BM. pose proof (Q dz vz Hdz Hvz). pose proof (F tv Bv L). lra.
+  - intros L. apply BM. pose proof (Q dx vx Hdx Hvx). pose proof (F te Be L). lra.
+  - intros L. apply BM. pose proof (Q dy vy Hdy Hvy). pose proof (F tn Bn L). lra.
+  - apply PC; assumption.
+  - apply PC; assumption.
+  - apply PC; assumption.
+  - intros Lv Le Ln. pose proof (F tv Bv Lv). pose proof (F te Be Le). pose proof (F tn Bn Ln).
+    unfold mix_cav. split; [|split].
+    + intros _ L. apply BM. pose proof (F ten Ben L). pose proof (QL vref _ Hvr (conj (Lmix_nonneg _ _) L1)). lra.
+    + intros _ L. apply BM. pose proof (F tev Bev L). pose proof (QL vref _ Hvr (conj (Lmix_nonneg _ _) L2)). lra.
+    + intros _ L. apply BM. pose proof (F tnv Bnv L). pose proof (QL vref _ Hvr (conj (Lmix_nonneg _ _) L3)). lra.
+  - intros _ _ _ _ _ _ _ L. left. apply BM.
+    pose proof (diag3_le tnve vref dz dx dy h Hdz ltac:(lra) ltac:(lra) ltac:(lra)).
+    assert (h * vref <= h * S) by (apply Rmult_le_compat_l; lra). pose proof (F tnve Bnve L). lra.
+Qed.
+
+Variables (nz nx ny : Z) (slow : arr R).
+Hypothesis Hslow : SlowBnd S slow.
+
+Lemma slow_reads_bnd i j kk a b d :
+  0 <= edge_s_z slow i j kk a nx ny <= S /\ 0 <= edge_s_x slow i j kk b nz ny <= S /\ 0 <= edge_s_y slow i j kk d nz nx <= S /\
+  0 <= face_s_zx slow i j kk a b ny <= S /\ 0 <= face_s_zy slow i j kk a d nx <= S /\ 0 <= face_s_xy slow i j kk b d nz <= S /\
+  0 <= cell_s slow i j kk a b d <= S.
+Proof.
+  assert (G : forall idx, 0 <= get 0 slow idx <= S) by (intros idx; apply SlowBnd_get; assumption).
+  unfold edge_s_z, edge_s_x, edge_s_y, face_s_zx, face_s_zy, face_s_xy, cell_s. nr.
+  refine (conj _ (conj _ (conj _ (conj _ (conj _ (conj _ _))))));
+    first [apply pymin4_bnd; apply G | apply pymin2_bnd; apply G | apply G].
+Qed.
+
+Lemma do_step3_bnd s tt :
+  M + 3 * h * S < BigR -> Bnd M tt -> Bnd (M + 3 * h * S) (do_step3 nz nx ny slow (dargs3 dz dx dy) s tt).
+Proof.
+  intros HB Ht. destruct s as [[[[[uz ux] uy] i] j] kk]. unfold do_step3, swT. rewrite sweep_dargs3_eq, node_value_nv3.
+  assert (QhS : 0 <= h * S) by (apply Rmult_le_pos; lra).
+  apply Bnd_set; [apply (Bnd_mono M); [lra | exact Ht]|].
+  destruct (slow_reads_bnd i j kk (sgnv uz) (sgnv ux) (sgnv uy)) as (E1 & E2 & E3 & E4 & E5 & E6 & E7).
+  apply (nv3_bnd M h S); try assumption; (apply Bnd_get; [lra | assumption]).
+Qed.
+
+Lemma NodeCav3_of_bnd s tt : Bnd M tt -> NodeCav3 c nz nx ny slow dz dx dy s tt.
+Proof.
+  intros Ht. destruct s as [[[[[uz ux] uy] i] j] kk]. unfold NodeCav3.
+  destruct (slow_reads_bnd i j kk (sgnv uz) (sgnv ux) (sgnv uy)) as (E1 & E2 & E3 & E4 & E5 & E6 & E7).
+  apply node_cav3_of_bnd; try assumption; (apply Bnd_get; [lra | assumption]).
+Qed.
+End BoundedCav.
+
+(* along a whole list of updates the bound grows by 3 h S per update *)
+Lemma Along_of_bnd3 c h S Lm dz dx dy nz nx ny slow l :
+  0 < c -> 0 <= S -> 0 < dz <= h -> 0 < dx <= h -> 0 < dy <= h -> LmixBnd dz dx dy Lm -> 0 <= Lm -> SlowBnd S slow ->
+  forall M tt, 0 <= M -> Bnd M tt -> Below c (2 * (M + INR (length l) * (3 * h * S)) + 2 * S * Lm) ->
+  Along (do_step3 nz nx ny slow (dargs3 dz dx dy)) (NodeCav3 c nz nx ny slow dz dx dy) l tt.
+Proof.
+  intros Hc HS Hdz Hdx Hdy HL HLm Hs. assert (QhS : 0 <= 3 * h * S) by (assert (0 <= h * S) by (apply Rmult_le_pos; lra); lra).
+  assert (QSL : 0 <= S * Lm) by (apply Rmult_le_pos; lra).
+  induction l as [|s l IH]; intros M tt HM Ht HB; [exact I|].
+  cbn [length] in HB. rewrite S_INR in HB. pose proof (pos_INR (length l)) as Hl.
+  assert (Hl' : 0 <= INR (length l) * (3 * h * S)) by (apply Rmult_le_pos; assumption).
+  split.
+  - apply (NodeCav3_of_bnd c M h S Lm Hc HM HS dz dx dy Hdz Hdx Hdy HL); [|exact Hs | exact Ht].
+    apply (Below_mono c _ _ Hc) with (2 := HB). lra.
+  - apply (IH (M + 3 * h * S)); [lra | |].
+    + apply (do_step3_bnd M h S HM HS dz dx dy Hdz Hdx Hdy nz nx ny slow Hs s tt); [|exact Ht]. destruct HB. lra.
+    + apply (Below_mono c _ _ Hc) with (2 := HB). lra.
+Qed.
+
+(* ========================================================================================== *)
+(* 9. the initial grid: Big, or an analytical time of a corner of the source cell, at most 3 h S   *)
+(* ========================================================================================== *)
+Lemma sqrt_sum3_le (a b d A B D : R) : Rabs a <= A -> Rabs b <= B -> Rabs d <= D -> sqrt (a ^ 2 + b ^ 2 + d ^ 2) <= A + B + D.
+Proof.
+  intros Ha Hb Hd. pose proof (Rabs_pos a). pose proof (Rabs_pos b). pose proof (Rabs_pos d).
+  rewrite <- (sqrt_square (A + B + D)) by lra. apply sqrt_le_1_alt.
+  assert (a ^ 2 = Rabs a * Rabs a) by (rewrite <- Rabs_mult; rewrite Rabs_pos_eq; [ring | nra]).
+  assert (b ^ 2 = Rabs b * Rabs b) by (rewrite <- Rabs_mult; rewrite Rabs_pos_eq; [ring | nra]).
+  assert (d ^ 2 = Rabs d * Rabs d) by (rewrite <- Rabs_mult; rewrite Rabs_pos_eq; [ring | nra]).
+  nra.
+Qed.
+
+Section InitBound.
+Variables (slow : arr R) (dz dx dy zsrc xsrc ysrc h S : R).
+Hypotheses (Hdz : 0 < dz <= h) (Hdx : 0 < dx <= h) (Hdy : 0 < dy <= h).
+Hypotheses (Hnz : (1 <= dim slow 0)%Z) (Hnx : (1 <= dim slow 1)%Z) (Hny : (1 <= dim slow 2)%Z).
+Hypothesis (Hin : inside3d slow dz dx dy zsrc xsrc ysrc = true).
+Hypotheses (HS : 0 <= S) (Hslow : SlowBnd S slow).
+
+Lemma corner_time_bnd i j kk :
+  (i = zsi3 slow dz zsrc \/ i = (zsi3 slow dz zsrc + 1)%Z) -> (j = xsi3 slow dx xsrc \/ j = (xsi3 slow dx xsrc + 1)%Z) ->
+  (kk = ysi3 slow dy ysrc \/ kk = (ysi3 slow dy ysrc + 1)%Z) ->
+  0 <= t_ana i j kk dz dx dy (zsa3 dz zsrc) (xsa3 dx xsrc) (ysa3 dy ysrc) (vzero3 slow dz dx dy zsrc xsrc ysrc) <= 3 * h * S.
+Proof.
+  intros Hi Hj Hk.
+  destruct (source_cell3 slow dz dx dy zsrc xsrc ysrc ltac:(lra) ltac:(lra) ltac:(lra) Hnz Hnx Hny Hin)
+    as ((_ & Bz) & (_ & Bx) & (_ & By)).
+  assert (Hv : 0 <= vzero3 slow dz dx dy zsrc xsrc ysrc <= S) by (unfold vzero3; apply SlowBnd_get; assumption).
+  rewrite t_ana_exact. unfold zsa3, xsa3, ysa3. nr.
+  set (v := vzero3 slow dz dx dy zsrc xsrc ysrc) in *.
+  assert (Ci : Rabs (IZR i - zsrc / dz) <= 1) by (apply Rabs_le; destruct Hi as [-> | ->]; rewrite ?plus_IZR; lra).
+  assert (Cj : Rabs (IZR j - xsrc / dx) <= 1) by (apply Rabs_le; destruct Hj as [-> | ->]; rewrite ?plus_IZR; lra).
+  assert (Ck : Rabs (IZR kk - ysrc / dy) <= 1) by (apply Rabs_le; destruct Hk as [-> | ->]; rewrite ?plus_IZR; lra).
+  set (sq := sqrt _).
+  assert (Hsq : 0 <= sq <= dz + dx + dy).
+  { split; [apply sqrt_pos|]. unfold sq. apply sqrt_sum3_le.
+    - rewrite Rabs_mult, (Rabs_pos_eq dz) by lra. match goal with |- dz * ?x <= _ => assert (dz * x <= dz * 1) by (apply Rmult_le_compat_l; lra) end. lra.
+    - rewrite Rabs_mult, (Rabs_pos_eq dx) by lra. match goal with |- dx * ?x <= _ => assert (dx * x <= dx * 1) by (apply Rmult_le_compat_l; lra) end. lra.
+    - rewrite Rabs_mult, (Rabs_pos_eq dy) by lra. match goal with |- dy * ?x <= _ => assert (dy * x <= dy * 1) by (apply Rmult_le_compat_l; lra) end. lra. }
+  split; [apply Rmult_le_pos; lra|].
+  assert (v * sq <= S * (3 * h)) by (apply Rmult_le_compat; lra). lra.
+Qed.
+
+Lemma init_Bnd3 : Bnd (3 * h * S) (tt0_3d slow dz dx dy zsrc xsrc ysrc).
+Proof.
+  unfold tt0_3d, corner3. cbv zeta.
+  repeat (apply Bnd_set; [|right; rewrite t_anad_fst; apply corner_time_bnd; tauto]). apply Bnd_full.
+Qed.
+
+Lemma InitCav_of_bound c : 0 < c -> Below c (3 * h * S) -> InitCav c slow dz dx dy zsrc xsrc ysrc.
+Proof.
+  intros Hc HB i j kk Hi Hj Hk. apply (Below_mono c _ _ Hc) with (2 := HB). apply corner_time_bnd; assumption.
+Qed.
+End InitBound.
+
+(* ========================================================================================== *)
+(* 10. c >= 1: the whole caveat in numbers                                                       *)
+(* ========================================================================================== *)
+(* C05 for fteik3d with a caveat made of numbers only: every slowness in [0, S]; dz, dx, dy <= h; the three lengths
+   Lmix <= Lm (cubic cells of side h: Lmix = sqrt 3 h); with N = number of node updates of the sweeping phase and
+       X = 2 (N + 1) (3 h S) + 2 S Lm:      X < Big  and  c X < Big      (for c >= 1: c X < Big). *)
+Theorem solver_rel3_below (c : R) (k : skind) (slow : arr R) (dz dx dy zsrc xsrc ysrc : R) nsweep grad tt g vz h S Lm :
+  0 < c -> 0 < dz <= h -> 0 < dx <= h -> 0 < dy <= h ->
+  (1 <= dim slow 0)%Z -> (1 <= dim slow 1)%Z -> (1 <= dim slow 2)%Z ->
+  0 <= S -> SlowBnd S slow -> LmixBnd dz dx dy Lm ->
+  Below c (2 * (3 * h * S + INR (length (all_steps3 (dim slow 0 + 1) (dim slow 1 + 1) (dim slow 2 + 1) nsweep)) * (3 * h * S))
+           + 2 * S * Lm) ->
+  fteik3d slow dz dx dy zsrc xsrc ysrc nsweep grad = Ok (tt, g, vz) ->
+  exists tt' g', fteik3d (sc_slow k c slow) (sc_h k c dz) (sc_h k c dx) (sc_h k c dy) (sc_h k c zsrc) (sc_h k c xsrc)
+                         (sc_h k c ysrc) nsweep grad = Ok (tt', g', sc_v k c vz) /\
+                 TRel3 (dim slow 0 + 1) (dim slow 1 + 1) (dim slow 2 + 1) c tt tt' /\
+                 SameReach3 (dim slow 0 + 1) (dim slow 1 + 1) (dim slow 2 + 1) tt tt'.
+Proof.
+  intros Hc Hdz Hdx Hdy Hnz Hnx Hny HS Hs HL Hlt E.
+  pose proof (fteik3d_ok_inv slow dz dx dy zsrc xsrc ysrc nsweep grad tt g vz E) as (Hin & _).
+  assert (QhS : 0 <= 3 * h * S) by (assert (0 <= h * S) by (apply Rmult_le_pos; lra); lra).
+  assert (HLm : 0 <= Lm).
+  { destruct HL as (L1 & _). cbv zeta in L1. pose proof (Lmix_nonneg (1 / dz / dz * (1 / dx / dx)) (1 / dz / dz + 1 / dx / dx + 1 / dy / dy)). lra. }
+  assert (QSL : 0 <= S * Lm) by (apply Rmult_le_pos; lra).
+  set (N := INR (length (all_steps3 (dim slow 0 + 1) (dim slow 1 + 1) (dim slow 2 + 1) nsweep))) in *.
+  assert (HN : 0 <= N * (3 * h * S)) by (apply Rmult_le_pos; [apply pos_INR | exact QhS]).
+  apply (solver_rel3 c k Hc slow dz dx dy zsrc xsrc ysrc ltac:(lra) ltac:(lra) ltac:(lra) nsweep grad tt g vz); try lia;
+    [exact (SlowBnd_nonneg S slow Hs) | exact E | |].
+  - apply (InitCav_of_bound slow dz dx dy zsrc xsrc ysrc h S Hdz Hdx Hdy Hnz Hnx Hny Hin HS Hs c Hc).
+    apply (Below_mono c _ _ Hc) with (2 := Hlt). lra.
+  - unfold SweepCav3.
+    apply (Along_of_bnd3 c h S Lm dz dx dy _ _ _ slow _ Hc HS Hdz Hdx Hdy HL HLm Hs (3 * h * S)); [exact QhS | |].
+    + apply (init_Bnd3 slow dz dx dy zsrc xsrc ysrc h S); assumption.
+    + fold N. exact Hlt.
+Qed.
+
+Theorem solver_rel3_bounded (c : R) (k : skind) (slow : arr R) (dz dx dy zsrc xsrc ysrc : R) nsweep grad tt g vz h S Lm :
+  1 <= c -> 0 < dz <= h -> 0 < dx <= h -> 0 < dy <= h ->
+  (1 <= dim slow 0)%Z -> (1 <= dim slow 1)%Z -> (1 <= dim slow 2)%Z ->
+  0 <= S -> SlowBnd S slow -> LmixBnd dz dx dy Lm ->
+  c * (2 * (3 * h * S + INR (length (all_steps3 (dim slow 0 + 1) (dim slow 1 + 1) (dim slow 2 + 1) nsweep)) * (3 * h * S))
+       + 2 * S * Lm) < BigR ->
+  fteik3d slow dz dx dy zsrc xsrc ysrc nsweep grad = Ok (tt, g, vz) ->
+  exists tt' g', fteik3d (sc_slow k c slow) (sc_h k c dz) (sc_h k c dx) (sc_h k c dy) (sc_h k c zsrc) (sc_h k c xsrc)
+                         (sc_h k c ysrc) nsweep grad = Ok (tt', g', sc_v k c vz) /\
+                 TRel3 (dim slow 0 + 1) (dim slow 1 + 1) (dim slow 2 + 1) c tt tt' /\
+                 SameReach3 (dim slow 0 + 1) (dim slow 1 + 1) (dim slow 2 + 1) tt tt'.
+Proof.
+  intros Hc1 Hdz Hdx Hdy Hnz Hnx Hny HS Hs HL Hlt E.
+  apply (solver_rel3_below c k slow dz dx dy zsrc xsrc ysrc nsweep grad tt g vz h S Lm); try assumption; [lra|].
+  assert (QhS : 0 <= 3 * h * S) by (assert (0 <= h * S) by (apply Rmult_le_pos; lra); lra).
+  assert (HLm : 0 <= Lm).
+  { destruct HL as (L1 & _). cbv zeta in L1. pose proof (Lmix_nonneg (1 / dz / dz * (1 / dx / dx)) (1 / dz / dz + 1 / dx / dx + 1 / dy / dy)). lra. }
+  assert (QSL : 0 <= S * Lm) by (apply Rmult_le_pos; lra).
+  apply Below_ge1; [exact Hc1 | | exact Hlt].
+  assert (0 <= INR (length (all_steps3 (dim slow 0 + 1) (dim slow 1 + 1) (dim slow 2 + 1) nsweep)) * (3 * h * S))
+    by (apply Rmult_le_pos; [apply pos_INR | exact QhS]). lra.
+Qed.
+
+Theorem fteik3d_scale_slowness_bounded (c : R) (slow : arr R) (dz dx dy zsrc xsrc ysrc : R) nsweep grad (tt g : arr R) (vz h S Lm : R) :
+  1 <= c -> 0 < dz <= h -> 0 < dx <= h -> 0 < dy <= h ->
+  (1 <= dim slow 0)%Z -> (1 <= dim slow 1)%Z -> (1 <= dim slow 2)%Z ->
+  0 <= S -> SlowBnd S slow -> LmixBnd dz dx dy Lm ->
+  c * (2 * (3 * h * S + INR (length (all_steps3 (dim slow 0 + 1) (dim slow 1 + 1) (dim slow 2 + 1) nsweep)) * (3 * h * S))
+       + 2 * S * Lm) < BigR ->
+  fteik3d slow dz dx dy zsrc xsrc ysrc nsweep grad = Ok (tt, g, vz) ->
+  exists tt' g', fteik3d (smap c slow) dz dx dy zsrc xsrc ysrc nsweep grad = Ok (tt', g', c * vz) /\
+                 TRel3 (dim slow 0 + 1) (dim slow 1 + 1) (dim slow 2 + 1) c tt tt' /\
+                 SameReach3 (dim slow 0 + 1) (dim slow 1 + 1) (dim slow 2 + 1) tt tt'.
+Proof. exact (solver_rel3_bounded c Slowness slow dz dx dy zsrc xsrc ysrc nsweep grad tt g vz h S Lm). Qed.
+
+Theorem fteik3d_scale_length_bounded (c : R) (slow : arr R) (dz dx dy zsrc xsrc ysrc : R) nsweep grad (tt g : arr R) (vz h S Lm : R) :
+  1 <= c -> 0 < dz <= h -> 0 < dx <= h -> 0 < dy <= h ->
+  (1 <= dim slow 0)%Z -> (1 <= dim slow 1)%Z -> (1 <= dim slow 2)%Z ->
+  0 <= S -> SlowBnd S slow -> LmixBnd dz dx dy Lm ->
+  c * (2 * (3 * h * S + INR (length (all_steps3 (dim slow 0 + 1) (dim slow 1 + 1) (dim slow 2 + 1) nsweep)) * (3 * h * S))
+       + 2 * S * Lm) < BigR ->
+  fteik3d slow dz dx dy zsrc xsrc ysrc nsweep grad = Ok (tt, g, vz) ->
+  exists tt' g', fteik3d slow (c * dz) (c * dx) (c * dy) (c * zsrc) (c * xsrc) (c * ysrc) nsweep grad = Ok (tt', g', vz) /\
+                 TRel3 (dim slow 0 + 1) (dim slow 1 + 1) (dim slow 2 + 1) c tt tt' /\
+                 SameReach3 (dim slow 0 + 1) (dim slow 1 + 1) (dim slow 2 + 1) tt tt'.
+Proof. exact (solver_rel3_bounded c Length slow dz dx dy zsrc xsrc ysrc nsweep grad tt g vz h S Lm). Qed.
+
+(* ========================================================================================== *)
+(* 11. non-vacuity: a heterogeneous model of 2 x 2 x 2 cells (3 x 3 x 3 nodes), unit spacings,     *)
+(*     source in the middle of cell (0,0,0) (off-node), two sweeps, c = 2                         *)
+(* ========================================================================================== *)
+Definition hx3_slow : arr R := mkarr [2%Z; 2%Z; 2%Z] [1; 1; 1; 1; 1; 1; 1; 2].
+
+Lemma hx3_inside : inside3d hx3_slow 1 1 1 (1/2) (1/2) (1/2) = true.
+Proof.
+  unfold inside3d. cbn [dim shape hx3_slow nth]. nr.
+  rewrite !andb_true_iff, !Rleb_true. lra.
+Qed.
+Lemma hx3_slowbnd : SlowBnd 2 hx3_slow.
+Proof. unfold SlowBnd, hx3_slow. cbn [dat]. repeat constructor; lra. Qed.
+Lemma hx3_steps : length (all_steps3 (dim hx3_slow 0 + 1) (dim hx3_slow 1 + 1) (dim hx3_slow 2 + 1) 2) = 128%nat.
+Proof. reflexivity. Qed.
+Lemma hx3_lmix : LmixBnd 1 1 1 2.
+Proof.
+  unfold LmixBnd. cbv zeta. replace (1 / 1 / 1) with 1 by field. unfold Lmix.
+  replace ((1 + 1 + 1) / (1 * 1)) with 3 by field.
+  assert (H : sqrt 3 <= 2) by (rewrite <- (sqrt_square 2) by lra; apply sqrt_le_1_alt; lra).
+  repeat split; exact H.
+Qed.
+Lemma hx3_numbers :
+  2 * (2 * (3 * 1 * 2 + INR (length (all_steps3 (dim hx3_slow 0 + 1) (dim hx3_slow 1 + 1) (dim hx3_slow 2 + 1) 2)) * (3 * 1 * 2))
+       + 2 * 2 * 2) < BigR.
+Proof. rewrite hx3_steps, INR_IZR_INZ, BigR_val. cbn [Z.of_nat Pos.of_succ_nat Pos.succ]. lra. Qed.
+
+(* the precise caveats hold *)
+Example hx3_InitCav : InitCav 2 hx3_slow 1 1 1 (1/2) (1/2) (1/2).
+Proof.
+  apply (InitCav_of_bound hx3_slow 1 1 1 (1/2) (1/2) (1/2) 1 2); try lra; try (cbn [dim shape hx3_slow nth]; lia).
+  - exact hx3_inside.
+  - exact hx3_slowbnd.
+  - apply Below_ge1; rewrite ?BigR_val; lra.
+Qed.
+Example hx3_SweepCav : SweepCav3 2 hx3_slow 1 1 1 (1/2) (1/2) (1/2) 2.
+Proof.
+  unfold SweepCav3.
+  apply (Along_of_bnd3 2 1 2 2 1 1 1 _ _ _ hx3_slow _ ltac:(lra) ltac:(lra) ltac:(lra) ltac:(lra) ltac:(lra) hx3_lmix ltac:(lra)
+           hx3_slowbnd (3 * 1 * 2)); [lra | |].
+  - apply (init_Bnd3 hx3_slow 1 1 1 (1/2) (1/2) (1/2) 1 2); try lra; try (cbn [dim shape hx3_slow nth]; lia).
+    + exact hx3_inside.
+    + exact hx3_slowbnd.
+  - pose proof hx3_numbers as H. apply Below_ge1; [lra | | exact H].
+    assert (0 <= INR (length (all_steps3 (dim hx3_slow 0 + 1) (dim hx3_slow 1 + 1) (dim hx3_slow 2 + 1) 2)) * (3 * 1 * 2))
+      by (apply Rmult_le_pos; [apply pos_INR | lra]). lra.
+Qed.
+
+Example fteik3d_scale_slowness_ex :
+  exists tt g vz tt' g',
+    fteik3d hx3_slow 1 1 1 (1/2) (1/2) (1/2) 2 false = Ok (tt, g, vz) /\
+    fteik3d (smap 2 hx3_slow) 1 1 1 (1/2) (1/2) (1/2) 2 false = Ok (tt', g', 2 * vz) /\
+    TRel3 3 3 3 2 tt tt' /\ SameReach3 3 3 3 tt tt'.
+Proof.
+  destruct (fteik3d_raises_iff hx3_slow 1 1 1 (1/2) (1/2) (1/2) 2 false) as [_ H].
+  destruct (H hx3_inside) as [[[tt g] vz] E].
+  destruct (fteik3d_scale_slowness_bounded 2 hx3_slow 1 1 1 (1/2) (1/2) (1/2) 2 false tt g vz 1 2 2) as (tt' & g' & E' & HT & HR);
+    try lra; try exact E; try exact hx3_slowbnd; try exact hx3_lmix; try exact hx3_numbers;
+    try (cbn [dim shape hx3_slow nth]; lia).
+  exists tt, g, vz, tt', g'. split; [exact E|]. split; [exact E'|]. split; [exact HT | exact HR].
+Qed.
+
+Example fteik3d_scale_length_ex :
+  exists tt g vz tt' g',
+    fteik3d hx3_slow 1 1 1 (1/2) (1/2) (1/2) 2 false = Ok (tt, g, vz) /\
+    fteik3d hx3_slow (2 * 1) (2 * 1) (2 * 1) (2 * (1/2)) (2 * (1/2)) (2 * (1/2)) 2 false = Ok (tt', g', vz) /\
+    TRel3 3 3 3 2 tt tt' /\ SameReach3 3 3 3 tt tt'.
+Proof.
+  destruct (fteik3d_raises_iff hx3_slow 1 1 1 (1/2) (1/2) (1/2) 2 false) as [_ H].
+  destruct (H hx3_inside) as [[[tt g] vz] E].
+  destruct (fteik3d_scale_length_bounded 2 hx3_slow 1 1 1 (1/2) (1/2) (1/2) 2 false tt g vz 1 2 2) as (tt' & g' & E' & HT & HR);
+    try lra; try exact E; try exact hx3_slowbnd; try exact hx3_lmix; try exact hx3_numbers;
+    try (cbn [dim shape hx3_slow nth]; lia).
+  exists tt, g, vz, tt', g'. split; [exact E|]. split; [exact E'|]. split; [exact HT | exact HR].
+Qed.
+
+(* the same through the theorems with the precise caveat *)
+Example fteik3d_scale_slowness_ex' :
+  exists tt g vz tt' g',
+    fteik3d hx3_slow 1 1 1 (1/2) (1/2) (1/2) 2 false = Ok (tt, g, vz) /\
+    fteik3d (smap 2 hx3_slow) 1 1 1 (1/2) (1/2) (1/2) 2 false = Ok (tt', g', 2 * vz) /\
+    TRel3 3 3 3 2 tt tt' /\ SameReach3 3 3 3 tt tt'.
+Proof.
+  destruct (fteik3d_raises_iff hx3_slow 1 1 1 (1/2) (1/2) (1/2) 2 false) as [_ H].
+  destruct (H hx3_inside) as [[[tt g] vz] E].
+  destruct (fteik3d_scale_slowness 2 hx3_slow 1 1 1 (1/2) (1/2) (1/2) 2 false tt g vz) as (tt' & g' & E' & HT & HR);
+    try lra; try exact E; try exact hx3_InitCav; try exact hx3_SweepCav; try (cbn [dim shape hx3_slow nth]; lia).
+  - exact (SlowBnd_nonneg 2 hx3_slow hx3_slowbnd).
+  - exists tt, g, vz, tt', g'. split; [exact E|]. split; [exact E'|]. split; [exact HT | exact HR].
+Qed.
+
+(* one node update (node (1,1,1) of the initial grid, first pass): the caveat of the node holds and the update is related *)
+Example node_rel_ex :
+  let tt := tt0_3d hx3_slow 1 1 1 (1/2) (1/2) (1/2) in
+  let tt' := tt0_3d (smap 2 hx3_slow) 1 1 1 (1/2) (1/2) (1/2) in
+  GRel 2 tt tt' /\
+  NodeCav3 2 3 3 3 hx3_slow 1 1 1 (true, true, true, 1%Z, 1%Z, 1%Z) tt /\
+  GRel 2 (do_step3 3 3 3 hx3_slow (dargs3 1 1 1) (true, true, true, 1%Z, 1%Z, 1%Z) tt)
+         (do_step3 3 3 3 (smap 2 hx3_slow) (dargs3 1 1 1) (true, true, true, 1%Z, 1%Z, 1%Z) tt').
+Proof.
+  intros tt tt'.
+  assert (G : GRel 2 tt tt') by exact (init_rel3 2 Slowness ltac:(lra) hx3_slow 1 1 1 (1/2) (1/2) (1/2) hx3_InitCav).
+  assert (N : NodeCav3 2 3 3 3 hx3_slow 1 1 1 (true, true, true, 1%Z, 1%Z, 1%Z) tt).
+  { apply (NodeCav3_of_bnd 2 (3 * 1 * 2) 1 2 2); try lra; try exact hx3_lmix; try exact hx3_slowbnd.
+    - apply Below_ge1; rewrite ?BigR_val; lra.
+    - apply (init_Bnd3 hx3_slow 1 1 1 (1/2) (1/2) (1/2) 1 2); try lra; try (cbn [dim shape hx3_slow nth]; lia).
+      + exact hx3_inside.
+      + exact hx3_slowbnd. }
+  split; [exact G|]. split; [exact N|].
+  exact (do_step3_rel 2 Slowness ltac:(lra) 3 3 3 hx3_slow 1 1 1 _ tt tt' ltac:(lra) ltac:(lra) ltac:(lra)
+           (SlowBnd_nonneg 2 hx3_slow hx3_slowbnd) G N).
+Qed.
+
+(* the raise behaviour: a source outside the model raises in both unit systems *)
+Example fteik3d_scale_raises_ex :
+  fteik3d hx3_slow 1 1 1 3 (1/2) (1/2) 2 false = Raise ValueError /\
+  fteik3d (smap 2 hx3_slow) 1 1 1 3 (1/2) (1/2) 2 false = Raise ValueError /\
+  fteik3d hx3_slow (2 * 1) (2 * 1) (2 * 1) (2 * 3) (2 * (1/2)) (2 * (1/2)) 2 false = Raise ValueError.
+Proof.
+  assert (E : fteik3d hx3_slow 1 1 1 3 (1/2) (1/2) 2 false = Raise ValueError).
+  { apply fteik3d_raises_iff. unfold inside3d. cbn [dim shape hx3_slow nth]. nr.
+    rewrite (proj2 (Rleb_false 3 (1 * 2))) by lra. rewrite andb_false_r. reflexivity. }
+  split; [exact E|]. split.
+  - apply (fteik3d_scale_slowness_raises 2); [lra | exact E].
+  - apply (fteik3d_scale_length_raises 2); [lra | exact E].
+Qed.
+
+Print Assumptions node_rel.
+Print Assumptions sweep_node_scale.
+Print Assumptions do_step3_rel.
+Print Assumptions run3_rel.
+Print Assumptions fteik3d_scale_slowness.
+Print Assumptions fteik3d_scale_length.
+Print Assumptions fteik3d_scale_raises.
+Print Assumptions solver_rel3_below.
+Print Assumptions fteik3d_scale_slowness_bounded.
+Print Assumptions fteik3d_scale_length_bounded.
+Print Assumptions fteik3d_scale_slowness_ex.
+Print Assumptions fteik3d_scale_length_ex.
